@@ -1,183 +1,406 @@
-"""C08 -- step-wise generator == batch solver for any send history (partial claim)."""
+"""C08 -- step-wise generator == batch solver for any send history (partial claim).
+
+Every rule decides on *values*: a generator body is executed symbolically for one configuration of the solver object and one kind of send
+(verifier/c08_gen.py), array accesses are references (array, partition, column) however the source reaches them, the state that survives from
+one send to the next is found by def-use (whatever the locals are called), and the expected side is the batch loop body / a formula."""
 from __future__ import annotations
 
 import ast
+import copy as _copy
+import re as _re
 
+from . import c08_gen as G
 from . import e2_formula as F
 from . import ode_spaces as O
+from . import sem
+from .c08_gen import F1ALL, J, NONE, Facts, GenEval, depends, free_syms, is_all, symname
 from .core import AnchorError, Unsupported
-from .e1_srcmodel import dotted, walk_no_nested, parent, ancestors, utext
+from .e1_srcmodel import dotted, walk_no_nested, utext
 from .e2_eval import Evaluator, Unknown, is_unknown, need
 
 UNC, SE2, BASE = O.UNC, O.SE2, O.BASE
+CDF = "pyyeti/ode/solvecdf.py"
 
 D0, V0, F0, F1 = F.sym("d0"), F.sym("v0"), F.sym("f0"), F.sym("f1")
 F1RF, F0RB, F1RB = F.sym("f1rf"), F.sym("f0rb"), F.sym("f1rb")
 COEF = {c: F.sym(c) for c in ("F", "G", "A", "B", "Fp", "Gp", "Ap", "Bp")}
 BO, ALPHA, IKRF = F.sym("bo"), F.sym("alpha"), F.sym("ikrf")
+STALE = F.sym("stale_cache")
+
+# values of the solver's attributes (one symbol per attribute, shared with the batch side)
+_PC = ("F", "G", "A", "B", "Fp", "Gp", "Ap", "Bp", "alpha", "Fe", "Ae", "Be", "ur_d", "ur_v", "ur_inv_v", "ur_inv_d", "rur_d", "iur_d", "rur_v", "iur_v")
+_SELF = ("bo", "ikrf", "invm", "imrb", "P", "Q", "E_dd", "E_dv", "E_vd", "E_vv", "m", "b", "k")
+
+# canonical names of the array references the rules talk about: (array, partition, column) -> symbol
+REFNAME = {("d", "k", "prev"): "d0", ("v", "k", "prev"): "v0", ("force", "k", "prev"): "f0", ("f1", "k", "all"): "f1", ("f1", "rf", "all"): "f1rf",
+           ("f1", "rb", "all"): "f1rb", ("force", "rb", "prev"): "f0rb", ("d", "rb", "prev"): "drb0", ("v", "rb", "prev"): "vrb0"}
 
 
-def _generator_loops(fn):
-    """every `while True:` loop that receives `j, F1 = yield`, with the tests that dominate it"""
-    out = []
-    for n in ast.walk(fn):
-        if isinstance(n, ast.While) and ast.unparse(n.test) == "True" and n.body and "yield" in ast.unparse(n.body[0]):
-            doms = []
-            for a in ancestors(n):
-                if isinstance(a, ast.If):
-                    inbody = any(n is y for x in a.body for y in ast.walk(x))
-                    doms.append((ast.unparse(a.test).replace(" ", ""), inbody))
-            out.append((n, doms))
-    return sorted(out, key=lambda x: x[0].lineno)
+def refsym(arr, rn, cn):
+    return F.sym(REFNAME.get((arr, rn, cn), f"@{arr}.{rn}.{cn}"))
 
 
-def _loop_config(doms):
-    """{order, rf, ksize} from the dominating tests"""
-    cfg = {"order": None, "rf": None, "k": True}
-    for t, inb in doms:
-        if t in ("self.order==1", "order==1"):
-            cfg["order"] = 1 if inb else 0
-        elif t in ("self.rfsize", "rfsize"):
-            cfg["rf"] = inb
-        elif t in ("notself.ksize", "notksize"):
-            cfg["k"] = not inb
-        elif t in ("unc",):
-            cfg["unc"] = inb
-    return cfg
+# ---------------------------------------------------------------------------------------------------------------- configurations
+def attr_env():
+    env = {f"self.pc.{c}": F.sym(c) for c in _PC}
+    env.update({f"self.{c}": F.sym(c) for c in _SELF})
+    return env
 
 
-# ---------------------------------------------------------------------------
-# loop-carried state
-def _ue_uses(stmts, defined=None):
-    """(upward-exposed uses, definitely-assigned names) of a statement list"""
-    defined = set(defined or ())
-    ue = set()
-    for st in stmts:
-        if isinstance(st, ast.If):
-            u_t = {n.id for n in ast.walk(st.test) if isinstance(n, ast.Name)} - defined
-            ub, db = _ue_uses(st.body, defined)
-            uo, do = _ue_uses(st.orelse, defined)
-            ue |= u_t | ub | uo
-            defined |= (db & do)
-            continue
-        loads, stores = [], []
-        if isinstance(st, ast.AugAssign):
-            loads += [n.id for n in ast.walk(st.value) if isinstance(n, ast.Name)]
-            loads += [n.id for n in ast.walk(st.target) if isinstance(n, ast.Name)]
-            if isinstance(st.target, ast.Name):
-                stores.append(st.target.id)
-        elif isinstance(st, ast.Assign):
-            loads += [n.id for n in ast.walk(st.value) if isinstance(n, ast.Name)]
-            for t in st.targets:
-                if isinstance(t, ast.Name):
-                    stores.append(t.id)
-                elif isinstance(t, (ast.Tuple, ast.List)):
-                    for e in t.elts:
-                        if isinstance(e, ast.Name):
-                            stores.append(e.id)
-                        else:
-                            loads += [n.id for n in ast.walk(e) if isinstance(n, ast.Name)]
-                else:
-                    loads += [n.id for n in ast.walk(t) if isinstance(n, ast.Name)]
+def cfg_env(cfg, which=None, extra_truths=()):
+    """environment + facts of one configuration.  cfg: order 0/1, rf, k, rb (partitions present), m None/'unc'/'coupled', real, cdf, unc"""
+    env = attr_env()
+    signs = {}
+    env["self.order"] = F.const(cfg.get("order", 1))
+    for key, nm in (("rf", "self.rfsize"), ("k", "self.ksize"), ("rb", "self.rbsize")):
+        if cfg.get(key, True):
+            env[nm] = F.sym(nm)
+            signs[nm] = "+"
         else:
-            loads += [n.id for n in ast.walk(st) if isinstance(n, ast.Name) and isinstance(n.ctx, ast.Load)]
-        ue |= set(loads) - defined
-        defined |= set(stores)
-    return ue, defined
+            env[nm] = F.const(0)
+    env["self.nonrfsz"] = env["self.ksize"]             # _common_precalcs: both are nonrf.size (SolveUnc.get_su_eig re-partitions ksize only in mode E)
+    m = cfg.get("m", "unc")
+    if m is None:
+        env["self.m"] = NONE
+    unc = cfg.get("unc", m in (None, "unc"))
+    env["self.systype"] = F.sym("float") if cfg.get("real", True) else F.sym("complex")
+    truths = [(F.sym("self.unc"), bool(unc)), (F.sym("self.cdforces"), bool(cfg.get("cdf", False))), (F.sym("self.slices"), cfg.get("slices", True)),
+              (F.sym("self.pre_eig"), False), (F.sym("self.h"), True), (F.sym("self.pc"), True)]
+    truths += list(extra_truths)
+    if which is not None:
+        signs["j"] = "-" if which == "addon" else ">=0"
+    return env, Facts(truths=truths, signs=signs)
 
 
-def _assigned_in(stmts):
-    out = set()
-    for st in stmts:
-        for n in ast.walk(st):
-            if isinstance(n, ast.Name) and isinstance(n.ctx, ast.Store):
-                out.add(n.id)
-            if isinstance(n, ast.AugAssign) and isinstance(n.target, ast.Name):
-                out.add(n.target.id)
+class Canon:
+    """reference hook of a generator body: which array, which partition, which column (by value)"""
+
+    def __init__(self, fn, cfg, mode):
+        names = [a.arg for a in fn.args.args]
+        self.root = {names[1]: "d", names[2]: "v", "self._force": "force", "F1all": "f1"}
+        if mode == "E":
+            self.root[names[3]] = "a"
+        self.root[names[-1]] = "f0p"
+        self.cfg, self.mode = cfg, mode
+        self.index_vars = set()
+
+    def classify(self, root, rows, col):
+        arr = self.root.get(symname(root)) if root is not None else None
+        rn = None
+        if rows is not None:
+            rn = "all" if is_all(rows) else {"self.kdof": "k", "self.rf": "rf", "self.rb": "rb"}.get(symname(rows))
+        if rn == "all" and self.mode == "U":
+            # where there are no rf equations the non-rf set is everything; where there are only rf equations the rf set is
+            if self.cfg.get("k", True) and not self.cfg.get("rf", True):
+                rn = "k"
+            elif self.cfg.get("rf", True) and not self.cfg.get("k", True):
+                rn = "rf"
+        return arr, rn, self.colname(col)
+
+    def colname(self, col):
+        if col is None or is_unknown(col) or isinstance(col, tuple):
+            return None
+        if is_all(col):
+            return "all"
+        if col.equals(J - 1):
+            return "prev"
+        if col.equals(J):
+            return "cur"
+        if col.is_const() and col.const_value() == 0:
+            return "0"
+        if (symname(col) or "").startswith("carry:"):
+            self.index_vars.add(symname(col)[6:])
+            return "cur"
+        return None
+
+    def __call__(self, ev, root, rows, col):
+        arr, rn, cn = self.classify(root, rows, col)
+        if arr is None or rn in (None, "all") or cn is None:
+            return None
+        if arr in ("f1", "f0p"):
+            return refsym(arr, rn, cn) if cn == "all" else None
+        if cn == "all":
+            return None
+        return refsym(arr, rn, cn)
+
+
+class Arm:
+    """one symbolic iteration of a generator loop"""
+
+    def __init__(self, ev, canon):
+        self.ev, self.canon, self.loop = ev, canon, ev.loop
+        self.cells, self.pre_cells = [], []
+        for c in ev.gcells:
+            key = canon.classify(c["root"], c["rows"], c["col"]) if c["root"] is not None else (None, None, None)
+            rec = dict(c, key=key)
+            (self.cells if c["in_loop"] else self.pre_cells).append(rec)
+
+    def cell(self, arr, rn, cn="cur"):
+        hit = [c for c in self.cells if c["key"] == (arr, rn, cn)]
+        return hit[-1] if hit else None
+
+    def value(self, arr, rn, cn="cur"):
+        c = self.cell(arr, rn, cn)
+        return None if c is None else c["value"]
+
+    def final(self, name):
+        return self.ev.env.get(name)
+
+
+GENS = {
+    "real": (UNC, "SolveUnc._solve_real_unc_generator", "U"),
+    "cdf": (UNC, "SolveUnc._solve_real_unc_generator_cdforces", "U"),
+    "complex": (UNC, "SolveUnc._solve_complex_unc_generator", "E"),
+    "se2": (SE2, "SolveExp2._solve_se2_generator", "U"),
+}
+
+
+def _inline(ctx, kind):
+    cache = ctx.__dict__.setdefault("_c08_inline", {})
+    if kind not in cache:
+        if kind == "se2":
+            specs = [(SE2, "SolveExp2"), (BASE, "_BaseODE")]
+        else:
+            specs = [(UNC, "SolveUnc"), (BASE, "_BaseODE")]
+        cache[kind] = G.inline_table(ctx, specs, exclude=("_delconj", "_addconj", "_calc_acce_kdof", "_init_dva_part", "_init_dva", "_alloc_dva",
+                                                          "generator", "tsolve", "fsolve", "finalize"))
+    return cache[kind]
+
+
+def run_arm(ctx, kind, cfg, which, carry=None, generic=(), generic_prefix=None, sided=False):
+    """evaluate generator `kind` for the configuration and the kind of send; memoised per run"""
+    key = (kind, tuple(sorted((k, str(v)) for k, v in cfg.items())), which, tuple(sorted((k, repr(v)) for k, v in (carry or {}).items())),
+           tuple(sorted(generic)), generic_prefix, sided)
+    cache = ctx.__dict__.setdefault("_c08_arms", {})
+    if key in cache:
+        r = cache[key]
+        if isinstance(r, Exception):
+            raise r
+        return r
+    rel, qual, mode = GENS[kind]
+    fn = ctx.src.func(rel, qual)
+    env, facts = cfg_env(cfg, which)
+    facts.generic = set(generic)
+    facts.generic_prefix = generic_prefix
+    canon = Canon(fn, cfg, mode)
+    ev = GenEval(ctx, fn, env=env, facts=facts, inline=_inline(ctx, kind), refhook=canon, carry=carry, sided=sided)
+    try:
+        ev.run(fn.body)
+        if ev.loop is None:
+            raise Unsupported(f"{qual}: no generator loop is reached in configuration {cfg}")
+    except Unsupported as e:
+        cache[key] = e
+        raise
+    arm = Arm(ev, canon)
+    cache[key] = arm
+    return arm
+
+
+def cfg_tag(cfg):
+    parts = [f"order {cfg.get('order')}"]
+    for k, lab in (("rf", "rf"), ("k", "non-rf"), ("rb", "rb")):
+        if k in cfg:
+            parts.append(f"{lab} {'yes' if cfg[k] else 'no'}")
+    if "m" in cfg:
+        parts.append(f"m {cfg['m'] or 'None'}")
+    if "real" in cfg:
+        parts.append("real system" if cfg["real"] else "complex system")
+    if "unc" in cfg and "m" not in cfg:
+        parts.append("uncoupled" if cfg["unc"] else "coupled")
+    return ", ".join(parts)
+
+
+def u_configs(with_k_false=True):
+    out = []
+    for order in (1, 0):
+        for rf in (True, False):
+            out.append({"order": order, "rf": rf, "k": True})
+        if with_k_false:
+            out.append({"order": order, "rf": True, "k": False})
     return out
 
 
+def se2_configs():
+    out = []
+    for order in (1, 0):
+        for m in (None, "unc", "coupled"):
+            for rf in (True, False):
+                out.append({"order": order, "rf": rf, "k": True, "m": m, "unc": m != "coupled"})
+        for unc in (True, False):
+            out.append({"order": order, "rf": True, "k": False, "unc": unc, "m": "unc" if unc else "coupled"})
+    return out
+
+
+def cx_configs():
+    out = []
+    for order in (1, 0):
+        for mass in (None, "unc", "coupled"):
+            for real in (True, False):
+                out.append({"order": order, "m": mass, "real": real, "rb": True, "k": True, "rf": True, "unc": mass != "coupled"})
+    return out
+
+
+def _all_generator_loops(fn):
+    return [n for n in walk_no_nested(fn) if isinstance(n, ast.While) and G._has_yield(n)]
+
+
+# ---------------------------------------------------------------------------------------------------------------- carried state
+def carried_roles(arms):
+    """{carried name: set of roles} over the given arms of one loop.  Roles: 'index' (column of a store), 'value' (enters a stored value
+    or a live carried value), 'test' (decides a branch).  A name none of whose earlier values can be observed has no entry."""
+    cands = []
+    for a in arms:
+        for c in a.ev.carried:
+            if c not in cands:
+                cands.append(c)
+    roles = {}
+
+    def add(c, r):
+        roles.setdefault(c, set()).add(r)
+
+    for a in arms:
+        for c in cands:
+            s = "carry:" + c
+            for cell in a.cells:
+                if depends(cell["value"], s):
+                    # the current content of an augmented store is addressed, not used, by the index variable
+                    v = cell["value"]
+                    if cell["cur"] is not None and not is_unknown(v) and not is_unknown(cell["cur"]) and not isinstance(v, tuple):
+                        v = v - cell["cur"]
+                    if depends(v, s):
+                        add(c, "value")
+                for part in (cell["rows"], cell["col"]):
+                    if part is not None and depends(part, s):
+                        add(c, "index")
+            for t in a.ev.facts.tests:
+                if depends(t, s):
+                    add(c, "test")
+    changed = True
+    while changed:
+        changed = False
+        for x in list(roles):
+            for a in arms:
+                fv = a.final(x)
+                for c in cands:
+                    if c != x and depends(fv, "carry:" + c) and "value" not in roles.get(c, ()):
+                        add(c, "value")
+                        changed = True
+    return roles
+
+
+def _generic_arms(ctx, kind, cfg):
+    return [run_arm(ctx, kind, cfg, w, generic_prefix="carry:") for w in ("pos", "addon")]
+
+
+def _find_state(ctx, kind, cfg):
+    """(index variable, tag, cache, roles) of the loop of this configuration, found by def-use"""
+    arms = _generic_arms(ctx, kind, cfg)
+    roles = carried_roles(arms)
+    tags = [c for c, r in roles.items() if "test" in r]
+    if len(tags) > 1:
+        raise Unsupported(f"more than one carried value decides a branch: {sorted(tags)}")
+    if tags:
+        valid = run_arm(ctx, kind, cfg, "pos", carry={tags[0]: J - 1})
+        arms = arms + [valid]
+        roles = carried_roles(arms)
+    index = [c for c, r in roles.items() if r == {"index"}]
+    cache = [c for c, r in roles.items() if "value" in r and "index" not in r and "test" not in r]
+    return index, tags, cache, roles, arms
+
+
 def r1_carried_state(ctx):
-    gens = [(UNC, "SolveUnc._solve_real_unc_generator", set()), (UNC, "SolveUnc._solve_real_unc_generator_cdforces", {"dmpfrc1", "i_last"}),
-            (UNC, "SolveUnc._solve_complex_unc_generator", set()), (SE2, "SolveExp2._solve_se2_generator", set())]
     nloops = 0
-    for rel, q, extra in gens:
-        fn = ctx.src.func(rel, q)
-        for lp, doms in _generator_loops(fn):
-            nloops += 1
-            ue, _ = _ue_uses(lp.body)
-            carried = ue & _assigned_in(lp.body)
-            cfg = _loop_config(doms)
-            allowed = {"i"} | (extra if cfg["k"] else set())
-            ok = carried <= allowed and "i" in carried
-            ctx.check(ok, f"{q.split('.')[1]} (order {cfg['order']}, rf {cfg['rf']}): the only locals that survive from one send to the next are {sorted(allowed)}",
-                      lp, {"carried": sorted(carried)})
-            # `i` is set from the received index in the positive-send arm and only there
-            sets_i = [s for s in ast.walk(lp) if isinstance(s, ast.Assign) and ast.unparse(s.targets[0]) == "i"]
-            ok = len(sets_i) == 1 and ast.unparse(sets_i[0].value) == "j"
-            ctx.check(ok, f"{q.split('.')[1]}: the step index is taken from the send (`i = j`) in the positive-send arm only", lp, nontrivial=False)
-            if extra and cfg["k"]:
-                _cached_damping_force(ctx, q, lp, cfg)
+    covered = {}
+    for kind, configs in (("real", u_configs()), ("cdf", u_configs()), ("complex", cx_configs()), ("se2", se2_configs())):
+        rel, qual, mode = GENS[kind]
+        fn = ctx.src.func(rel, qual)
+        short = qual.split(".")[1]
+        loops = _all_generator_loops(fn)
+        seen = covered.setdefault(kind, set())
+        done_loops = set()
+        for cfg in configs:
+            tag = f"{short} ({cfg_tag(cfg)})"
+            try:
+                index, tags, cache, roles, arms = _find_state(ctx, kind, cfg)
+            except Unsupported as e:
+                ctx.error(f"{tag}: carried state", fn, str(e))
+                continue
+            lp = arms[0].loop
+            seen.add(id(lp))
+            first = id(lp) not in done_loops
+            done_loops.add(id(lp))
+            want_cache = kind == "cdf" and cfg["k"]
+            ok = len(index) == 1 and set(roles) == set(index) | set(tags) | set(cache) and len(tags) == (1 if want_cache else 0) \
+                and len(cache) == (1 if want_cache else 0)
+            ctx.check(ok, f"{tag}: the only state that survives from one send to the next is the step index"
+                          + (" plus one cached force and the step it was computed for" if want_cache else ""), lp,
+                      {"carried": {k: sorted(v) for k, v in roles.items()}}, nontrivial=first)
+            if len(index) != 1:
+                continue
+            pos, addon = arms[0], arms[1]
+            iv = index[0]
+            ok = pos.final(iv) is not None and not is_unknown(pos.final(iv)) and pos.final(iv).equals(J) and \
+                addon.final(iv) is not None and not is_unknown(addon.final(iv)) and addon.final(iv).equals(F.sym("carry:" + iv))
+            ctx.check(ok, f"{tag}: the step index is taken from the send by a positive send and kept by an add-on", lp,
+                      None if ok else {"positive": repr(pos.final(iv)), "add-on": repr(addon.final(iv))}, nontrivial=False)
+            if want_cache and len(tags) == 1 and len(cache) == 1:
+                _cached_damping_force(ctx, tag, cfg, tags[0], cache[0], arms)
+        nloops += len(seen)
+        missing = [l for l in loops if id(l) not in seen]
+        if missing:
+            ctx.error(f"{short}: a generator loop is reached by none of the configurations examined", missing[0], [l.lineno for l in missing])
+        else:
+            ctx.ok(f"{short}: every generator loop is reached by one of the configurations examined ({len(loops)} loops)", fn, nontrivial=False)
     ctx.check(nloops >= 13, f"carried-state rule bound to {nloops} generator loops", UNC + ":1", nontrivial=False)
 
 
-def _arms(lp):
-    """(add-on arm, positive-send arm) of `if j < 0:`"""
-    for st in lp.body:
-        if isinstance(st, ast.If) and ast.unparse(st.test).replace(" ", "") == "j<0":
-            return st.body, st.orelse
-    raise AnchorError("generator loop without `if j < 0:`")
+def _worlds(tagname, cachename):
+    """the cache tag relative to the step being solved: the send before solved step j-1 (cache valid) or any other step"""
+    return [("step j-1 solved last", {tagname: J - 1, cachename: BO * V0}, ()),
+            ("step j solved last (redo)", {tagname: J, cachename: STALE}, ()),
+            ("step j+1 solved last (jump back)", {tagname: J + 1, cachename: STALE}, ()),
+            ("step j-2 solved last (skip ahead)", {tagname: J - 2, cachename: STALE}, ()),
+            ("any other step solved last", {cachename: STALE}, ("carry:" + tagname,))]
 
 
-def _cached_damping_force(ctx, q, lp, cfg):
-    addon, pos = _arms(lp)
-    tag = f"{q.split('.')[1]} (order {cfg['order']}, rf {cfg['rf']})"
-    uses = [n for st in pos for n in ast.walk(st) if isinstance(n, ast.Name) and n.id == "dmpfrc1" and isinstance(n.ctx, ast.Load)]
-    # every use of the value cached by a previous send sits in `dmpfrc1 if i_last == i - 1 else bo @ vi`
-    first_def = min((st.lineno for st in pos for n in ast.walk(st) if isinstance(n, ast.Name) and n.id == "dmpfrc1" and isinstance(n.ctx, ast.Store)),
-                    default=10 ** 9)
-    for u in uses:
-        if u.lineno > first_def:
-            continue   # a use of the value computed in this very send
-        p_ = parent(u)
-        ok = isinstance(p_, ast.IfExp) and p_.body is u and ast.unparse(p_.test).replace(" ", "") == "i_last==i-1"
-        alt = ast.unparse(p_.orelse).replace(" ", "") if isinstance(p_, ast.IfExp) else None
-        ok = ok and alt == "bo@vi"
-        ctx.check(ok, f"{tag}: the damping force cached by an earlier send is used only when that send solved step i - 1 (`i_last == i - 1`), "
-                      "otherwise it is recomputed as bo @ V[:, i-1]", u,
-                  None if ok else {"expression": ast.unparse(p_) if p_ is not None else None,
-                                   "consequence": "after send(1..5) then send(3, f') the stale force of step 5 (or a recomputed force when the cache was valid) enters step 3"})
-    vi = [s for s in pos if isinstance(s, ast.Assign) and ast.unparse(s.targets[0]) == "vi"]
-    ok = bool(vi) and ast.unparse(vi[0].value).replace(" ", "") in ("V[:,i-1]", "v[:,i-1]")
-    ctx.check(ok, f"{tag}: the recompute arm uses the velocity of step i - 1", vi[0] if vi else lp)
-    il = [s for s in pos if isinstance(s, ast.Assign) and ast.unparse(s.targets[0]) == "i_last"]
-    ok = len(il) == 1 and ast.unparse(il[0].value) == "i"
-    ctx.check(ok, f"{tag}: the positive-send arm records which step the cache belongs to (`i_last = i`)", il[0] if il else lp)
-    newd = [s for s in pos if isinstance(s, ast.Assign) and ast.unparse(s.targets[0]) == "dmpfrc1"]
-    ok = len(newd) == 1 and ast.unparse(newd[0].value).replace(" ", "") == "alpha@v_part"
-    ctx.check(ok, f"{tag}: the cache is refreshed with alpha @ v_part of the step just solved", newd[0] if newd else lp)
-    if cfg["order"] == 1:
-        # the add-on arm updates the cache whenever it updates V[:, i]
-        txt = [utext(s) for s in addon]
-        upd_v = any(t.startswith("V[:,i]+=") or t.startswith("v[:,i]+=") for t in txt)
-        upd_c = any(t == "dmpfrc1+=dmpfrc1_addon" for t in txt)
-        ctx.check(upd_v and upd_c, f"{tag}: an add-on force that changes V[:, i] also updates the cached damping force", lp, txt)
+def _cached_damping_force(ctx, tag, cfg, tg, ch, arms):
+    pos, addon = arms[0], arms[1]
+    lp = pos.loop
+    # invariant at loop entry: the cache holds bo @ V[:, tag]
+    t0, c0 = pos.ev.carry_init.get(tg), pos.ev.carry_init.get(ch)
+    ok = t0 is not None and c0 is not None and not is_unknown(t0) and not is_unknown(c0) and not isinstance(c0, tuple)
+    if ok:
+        cn = pos.canon.colname(t0)
+        ok = cn is not None and c0.equals(BO * refsym("v", "k", cn))
+    ctx.check(ok, f"{tag}: before the first send the cache holds bo @ V[:, s] for the step s it is tagged with", lp,
+              None if ok else {"tag": repr(t0), "cache": repr(c0)})
+    # meaning of the guard: whatever step was solved last, a value cached for a step other than j-1 never enters step j
+    for wname, carry, generic in _worlds(tg, ch):
+        try:
+            w = run_arm(ctx, "cdf", cfg, "pos", carry=carry, generic=generic)
+        except Unsupported as e:
+            ctx.error(f"{tag} [{wname}]: positive send", lp, str(e))
+            continue
+        if wname.startswith("step j-1"):
+            continue
+        used = [c["text"] for c in w.cells if depends(c["value"], "stale_cache")] + [k for k in (ch,) if depends(w.final(k), "stale_cache")]
+        ctx.check(not used, f"{tag} [{wname}]: the force cached by an earlier send is not used (it belongs to another step); the step is computed from "
+                            "column j-1", lp, None if not used else {"depends on the stale cache": used,
+                                                                     "consequence": "after send(1..5) then send(3, f') the force of step 5 enters step 3"})
+    # bookkeeping of the tag
+    ok = pos.final(tg) is not None and not is_unknown(pos.final(tg)) and pos.final(tg).equals(J)
+    ctx.check(ok, f"{tag}: a positive send records which step the cache now belongs to", lp, None if ok else repr(pos.final(tg)))
+    ok = addon.final(tg) is not None and not is_unknown(addon.final(tg)) and addon.final(tg).equals(F.sym("carry:" + tg))
+    ctx.check(ok, f"{tag}: an add-on leaves the tag of the cache alone", lp, None if ok else repr(addon.final(tg)), nontrivial=False)
+    # an add-on that changes V[:, i] changes the cached force as well
+    vch = addon.cell("v", "k") is not None
+    cch = addon.final(ch) is not None and not (not is_unknown(addon.final(ch)) and addon.final(ch).equals(F.sym("carry:" + ch)))
+    ctx.check(vch == cch, f"{tag}: an add-on force changes the cached damping force exactly when it changes V[:, i]", lp,
+              {"V changed": vch, "cache changed": cch})
 
 
-# ---------------------------------------------------------------------------
-# symbolic evaluation of one arm of one loop
-def _subscript_hook(node, ev):
-    t = utext(node)
-    table = {
-        "D[:,i-1]": D0, "d[:,i-1]": D0, "V[:,i-1]": V0, "v[:,i-1]": V0, "drb[:,i-1]": F.sym("drb0"), "vrb[:,i-1]": F.sym("vrb0"),
-        "Force[kdof,i-1]": F0, "Force[:,i-1]": F0, "F1[kdof]": F1, "F0[kdof]": F0, "F1[rf]": F1RF, "F0[rb]": F0RB, "F1[rb]": F1RB,
-        "V[:,0]": V0, "v[:,0]": V0,
-    }
-    if t in table:
-        return table[t]
-    return NotImplemented
 
-
+# ---------------------------------------------------------------------------------------------------------------- batch side
 def _mk_env():
     env = {f"pc.{c}": v for c, v in COEF.items()}
     env.update({"self.pc.alpha": ALPHA, "pc.alpha": ALPHA, "self.bo": BO, "F1": F1, "self.ikrf": IKRF,
@@ -194,82 +417,14 @@ def _call_hook(node, ev):
         a, b = ev.ev(node.args[0]), ev.ev(node.args[1])
         if is_unknown(a) or is_unknown(b):
             return a if is_unknown(a) else b
-        if dotted(node.args[1].func if isinstance(node.args[1], ast.Call) else node.args[1]) == "np.eye":
+        if dotted(node.args[1].func if isinstance(node.args[1], ast.Call) else node.args[1]) in ("np.eye", "np.identity"):
             return need(a)          # lu_solve(lu, eye) : the inverse; `a` already stands for the inverse operator
         return need(a) * need(b)
-    if d == "np.eye":
+    if d in ("np.eye", "np.identity"):
         return F.const(1)
     if d.endswith(".ravel") or d.endswith(".copy"):
         return ev.ev(node.func.value)
     return NotImplemented
-
-
-def eval_generator_arm(ctx, fn, lp, cfg, which, pre_override=None):
-    """run the function's straight-line prefix along the path to `lp`, then one arm of the loop body; returns Evaluator"""
-    path_ifs = {}
-    for a in ancestors(lp):
-        if isinstance(a, ast.If):
-            path_ifs[id(a)] = any(lp is y for x in a.body for y in ast.walk(x))
-
-    def cond(test, ev):
-        t = utext(test)
-        if t == "j<0":
-            return which == "addon"
-        if t in ("self.rfsize", "rfsize"):
-            return bool(cfg.get("rf"))
-        if t in ("notself.ksize", "notksize"):
-            return not cfg.get("k", True)
-        if t in ("self.order==1", "order==1"):
-            return cfg.get("order") == 1
-        if t in ("order==0",):
-            return cfg.get("order") == 0
-        if t == "nt==1":
-            return False
-        if t in ("self.misnotNone", "misnotNone"):
-            return cfg.get("m", True)
-        if t in ("unc", "self.unc"):
-            return cfg.get("unc", True)
-        if t in ("systypeisfloat", "self.systypeisfloat"):
-            return cfg.get("real", False)
-        if t in ("rbsize", "self.rbsize"):
-            return cfg.get("rb", True)
-        if t in ("ksize", "self.ksize"):
-            return cfg.get("k", True)
-        return None
-
-    ev = Evaluator(env=_mk_env(), cond=cond, src=ctx.src, subscript=_subscript_hook, call=_call_hook)
-
-    def run(stmts):
-        for st in stmts:
-            if ev.done:
-                return
-            if st is lp:
-                if pre_override:
-                    ev.env.update(pre_override)
-                body = [s for s in lp.body if not (isinstance(s, ast.Assign) and "yield" in ast.unparse(s.value))]
-                ev.env["j"] = F.sym("j")
-                ev.run(body)
-                ev.done = True
-                return
-            if isinstance(st, ast.If):
-                c = cond(st.test, ev)
-                if id(st) in path_ifs:
-                    run(st.body if path_ifs[id(st)] else st.orelse)
-                elif c is True:
-                    run(st.body)
-                elif c is False:
-                    run(st.orelse)
-                else:
-                    ev.stmt(st)
-            elif isinstance(st, ast.While):
-                continue
-            elif isinstance(st, ast.Expr) and isinstance(st.value, (ast.Yield, ast.Constant)):
-                continue
-            else:
-                ev.stmt(st)
-
-    run(fn.body)
-    return ev
 
 
 def _store_value(ev, names):
@@ -353,6 +508,96 @@ def _batch_cdforces(ctx):
     return out
 
 
+ROWS_D = F.fn("rowsel", F.sym("self.ksize"), NONE, NONE)      # rows ksize: of the [v; d] force integral
+ROWS_V = F.fn("rowsel", NONE, F.sym("self.ksize"), NONE)      # rows :ksize
+
+
+def _batch_se2(ctx, order, mass):
+    """one step of SolveExp2.tsolve: (d1, v1, loop)"""
+    fn = ctx.src.func(SE2, "SolveExp2.tsolve")
+    fk = F.sym("fk")
+
+    def cond(test, ev):
+        t = utext(test)
+        return {"ksize>0": True, "self.ksize>0": True, "nt>1": True, "self.misnotNone": mass is not None, "self.unc": mass != "coupled",
+                "self.order==1": order == 1, "notself.slices": False, "self.slices": True}.get(t)
+
+    def sub(node, ev):
+        t = utext(node)
+        fixed = {"force[kdof]": fk, "D[:,i]": D0, "V[:,i]": V0}
+        if t in fixed:
+            return fixed[t]
+        m = _re.fullmatch(r"(\w+)\[:,(:-1|1:)\]", t)
+        if m and m.group(1) in ev.env and not is_unknown(ev.env[m.group(1)]):
+            return need(ev.env[m.group(1)]).subs({"fk": F0 if m.group(2) == ":-1" else F1})
+        m = _re.fullmatch(r"(\w+)\[(ksize:|:ksize),i\]", t)
+        if m and m.group(1) in ev.env and not is_unknown(ev.env[m.group(1)]):
+            return (ROWS_D if m.group(2) == "ksize:" else ROWS_V) * need(ev.env[m.group(1)])
+        return NotImplemented
+
+    ev = Evaluator(env=_mk_env(), cond=cond, src=ctx.src, subscript=sub, call=_call_hook, store_accept=lambda n, i, node: False)
+    loops = []
+
+    def run(stmts):
+        for st in stmts:
+            if isinstance(st, ast.If):
+                c = cond(st.test, ev)
+                if c is None:
+                    raise Unsupported(f"SolveExp2.tsolve: undecided test `{ast.unparse(st.test)}`")
+                run(st.body if c else st.orelse)
+            elif isinstance(st, ast.For):
+                loops.append(st)
+                run(st.body)
+            elif isinstance(st, (ast.Expr, ast.Return)):
+                continue
+            else:
+                ev.stmt(st)
+    run(fn.body)
+    d1 = [v for b, i, v, s in ev.stores if b == "D" and i.replace(" ", "").strip("()") == ":,i+1"]
+    v1 = [v for b, i, v, s in ev.stores if b == "V" and i.replace(" ", "").strip("()") == ":,i+1"]
+    return (d1[-1] if d1 else None), (v1[-1] if v1 else None), (loops[0] if loops else fn)
+
+
+# ---------------------------------------------------------------------------------------------------------------- step == batch
+def _good(v):
+    return v is not None and not is_unknown(v) and not isinstance(v, tuple)
+
+
+def _u(v, cfg):
+    """where there are no rf equations the whole sent force is its non-rf part"""
+    if _good(v) and cfg.get("k", True) and not cfg.get("rf", True):
+        return v.subs({"F1all": F1})
+    return v
+
+
+def _eq(a, b):
+    return _good(a) and _good(b) and a.equals(b)
+
+
+def _force_cell(arm):
+    for rn in ("all", "k", "rf"):
+        c = arm.cell("force", rn)
+        if c is not None:
+            return c
+    return None
+
+
+def _rf_and_force(ctx, tag, arm, cfg):
+    lp = arm.loop
+    c = _force_cell(arm)
+    ok = c is not None and _eq(c["value"], F1ALL)
+    ctx.check(ok, f"{tag}: a positive send replaces the stored force of step i by the sent force", c["node"] if c else lp,
+              None if ok else (repr(c["value"]) if c else "no store into the force history"))
+    if cfg.get("rf"):
+        c = arm.cell("d", "rf")
+        ok = c is not None and _eq(c["value"], IKRF * F1RF)
+        ctx.check(ok, f"{tag}: residual-flexibility displacement of step i is the static solution K_rf^-1 F1[rf]", c["node"] if c else lp,
+                  None if ok else (repr(c["value"]) if c else "no store"))
+    allowed = {("d", "k"), ("v", "k"), ("d", "rf"), ("force", "all"), ("force", "k"), ("force", "rf"), ("d", "rb"), ("v", "rb"), ("a", "rb")}
+    other = [c["text"] for c in arm.cells if (c["key"][0], c["key"][1]) not in allowed or c["key"][2] != "cur"]
+    ctx.check(not other, f"{tag}: a positive send writes column i of the solution and of the force history and nothing else", lp, other, nontrivial=False)
+
+
 def r2_step_equals_batch(ctx):
     batch = _batch_real_unc(ctx)
     ref = {1: (COEF["F"] * D0 + COEF["G"] * V0 + COEF["A"] * F0 + COEF["B"] * F1,
@@ -361,108 +606,188 @@ def r2_step_equals_batch(ctx):
                COEF["Fp"] * D0 + COEF["Gp"] * V0 + (COEF["Ap"] + COEF["Bp"]) * F0)}
     for order in (1, 0):
         d1, v1, loop = batch[order]
-        ok = d1 is not None and v1 is not None and not is_unknown(d1) and not is_unknown(v1) and d1.equals(ref[order][0]) and v1.equals(ref[order][1])
+        ok = _eq(d1, ref[order][0]) and _eq(v1, ref[order][1])
         ctx.check(ok, f"_solve_real_unc_inner_loop (order {order}): the batch step is the documented one-step recurrence "
                       f"{'F d + G v + A f0 + B f1' if order else 'F d + G v + (A + B) f0'} (and its velocity twin)", loop,
                   None if ok else {"d1": repr(d1), "v1": repr(v1)})
-    ok = batch[0][0] is not None and batch[1][0] is not None and batch[1][0].subs({"f1": F0}).equals(batch[0][0]) and \
+    ok = _good(batch[0][0]) and _good(batch[1][0]) and batch[1][0].subs({"f1": F0}).equals(batch[0][0]) and \
         batch[1][1].subs({"f1": F0}).equals(batch[0][1])
     ctx.check(ok, "_solve_real_unc_inner_loop: order 0 is order 1 with the force held (f1 := f0)", batch[0][2])
     # generators: plain uncoupled
-    fn = ctx.src.func(UNC, "SolveUnc._solve_real_unc_generator")
-    for lp, doms in _generator_loops(fn):
-        cfg = _loop_config(doms)
-        if not cfg["k"]:
+    for cfg in u_configs():
+        tag = f"_solve_real_unc_generator ({cfg_tag(cfg)})"
+        try:
+            arm = run_arm(ctx, "real", cfg, "pos", generic_prefix="carry:")
+        except Unsupported as e:
+            ctx.error(f"{tag}: positive send", None, str(e))
             continue
-        ev = eval_generator_arm(ctx, fn, lp, cfg, "pos")
-        d1, sd = _store_value(ev, ("D", "d"))
-        v1, sv = _store_value(ev, ("V", "v"))
-        tag = f"_solve_real_unc_generator (order {cfg['order']}, rf {cfg['rf']})"
-        b = batch[cfg["order"]]
-        ok = d1 is not None and not is_unknown(d1) and d1.equals(b[0])
-        ctx.check(ok, f"{tag}: a positive send stores the batch displacement step computed from column i-1, Force[:, i-1] and the sent force", sd or lp,
-                  None if ok else {"generator": repr(d1), "batch": repr(b[0])})
-        ok = v1 is not None and not is_unknown(v1) and v1.equals(b[1])
-        ctx.check(ok, f"{tag}: a positive send stores the batch velocity step", sv or lp, None if ok else {"generator": repr(v1), "batch": repr(b[1])})
-        _rf_and_force(ctx, tag, ev, lp, cfg)
+        if cfg["k"]:
+            b = batch[cfg["order"]]
+            d1, v1 = _u(arm.value("d", "k"), cfg), _u(arm.value("v", "k"), cfg)
+            ok = _eq(d1, b[0])
+            ctx.check(ok, f"{tag}: a positive send stores the batch displacement step computed from column i-1, Force[:, i-1] and the sent force",
+                      (arm.cell("d", "k") or {}).get("node") or arm.loop, None if ok else {"generator": repr(d1), "batch": repr(b[0])})
+            ok = _eq(v1, b[1])
+            ctx.check(ok, f"{tag}: a positive send stores the batch velocity step", (arm.cell("v", "k") or {}).get("node") or arm.loop,
+                      None if ok else {"generator": repr(v1), "batch": repr(b[1])})
+        _rf_and_force(ctx, tag, arm, cfg)
     # generators: coupled damping as force
     cb = _batch_cdforces(ctx)
     for order in (1, 0):
         d1, v1, dnext, d00, loop = cb[order]
-        ok = d00 is not None and not is_unknown(d00) and d00.equals(BO * V0)
+        ok = _eq(d00, BO * V0)
         ctx.check(ok, f"_solve_real_unc_cdforces (order {order}): the initial damping force is bo @ V[:, 0]", loop, nontrivial=False)
-        ok = dnext is not None and not is_unknown(dnext) and v1 is not None and not is_unknown(v1)
+        ok = _good(dnext) and _good(v1)
         ctx.check(ok, f"_solve_real_unc_cdforces (order {order}): batch step lowered", loop, nontrivial=False)
-    fn = ctx.src.func(UNC, "SolveUnc._solve_real_unc_generator_cdforces")
-    for lp, doms in _generator_loops(fn):
-        cfg = _loop_config(doms)
+    for cfg in u_configs():
+        tag = f"_solve_real_unc_generator_cdforces ({cfg_tag(cfg)})"
         if not cfg["k"]:
+            try:
+                arm = run_arm(ctx, "cdf", cfg, "pos", generic_prefix="carry:")
+            except Unsupported as e:
+                ctx.error(f"{tag}: positive send", None, str(e))
+                continue
+            _rf_and_force(ctx, tag, arm, cfg)
             continue
-        tag = f"_solve_real_unc_generator_cdforces (order {cfg['order']}, rf {cfg['rf']})"
         b = cb[cfg["order"]]
-        # lemma (i): the cached force, when valid, equals bo @ V[:, i-1]; evaluate both arms of the conditional
-        for arm_name, table in (("cache valid", {"i_last==i-1": True}), ("recompute", {"i_last==i-1": False})):
-            ev = eval_generator_arm(ctx, fn, lp, cfg, "pos", pre_override={"dmpfrc1": BO * V0})
-            base_cond = ev.cond
-            ev2 = eval_generator_arm_with(ctx, fn, lp, cfg, "pos", {"dmpfrc1": BO * V0}, table)
-            d1, sd = _store_value(ev2, ("D", "d"))
-            v1, sv = _store_value(ev2, ("V", "v"))
-            ok = d1 is not None and not is_unknown(d1) and d1.equals(b[0]) and v1 is not None and not is_unknown(v1) and v1.equals(b[1])
-            ctx.check(ok, f"{tag} [{arm_name}]: a positive send stores the batch step of the damping-as-force recurrence", sd or lp,
-                      None if ok else {"generator d": repr(d1), "batch d": repr(b[0]), "generator v": repr(v1), "batch v": repr(b[1])})
-            dn = ev2.env.get("dmpfrc1")
-            ok = dn is not None and not is_unknown(dn) and b[2] is not None and dn.equals(b[2])
-            ctx.check(ok, f"{tag} [{arm_name}]: the damping force cached for the next step equals the batch loop's carried value", lp,
-                      None if ok else {"generator": repr(dn), "batch": repr(b[2])})
-        evp = eval_generator_arm_with(ctx, fn, lp, cfg, "pos", {"dmpfrc1": BO * V0}, {"i_last==i-1": True})
-        _rf_and_force(ctx, tag, evp, lp, cfg)
-    # SolveExp2 generator vs tsolve
-    fn = ctx.src.func(SE2, "SolveExp2._solve_se2_generator")
-    P, Q, invm = F.sym("P"), F.sym("Q"), F.sym("invm")
-    for lp, doms in _generator_loops(fn):
-        cfg = _loop_config(doms)
-        if not cfg["k"]:
+        try:
+            index, tags, cache, roles, arms = _find_state(ctx, "cdf", cfg)
+        except Unsupported as e:
+            ctx.error(f"{tag}: carried state", None, str(e))
             continue
-        for m_given in (True, False):
-            cfg2 = dict(cfg, m=m_given, unc=True)
-            ev = eval_generator_arm(ctx, fn, lp, cfg2, "pos")
-            pqf = ev.env.get("PQF")
-            mm = invm if m_given else F.const(1)
+        if len(tags) != 1 or len(cache) != 1:
+            ctx.fail(f"{tag}: the positive send uses one cached force guarded by the step it belongs to", arms[0].loop,
+                     {"carried": {k: sorted(v) for k, v in roles.items()}})
+            continue
+        worlds = _worlds(tags[0], cache[0])
+        evp = None
+        # lemma (i): the cached force, when valid, equals bo @ V[:, i-1]; evaluate both arms of the guard
+        for arm_name, (wn, carry, generic) in (("cache valid", worlds[0]), ("recompute", worlds[-1])):
+            try:
+                w = run_arm(ctx, "cdf", cfg, "pos", carry=carry, generic=generic)
+            except Unsupported as e:
+                ctx.error(f"{tag} [{arm_name}]: positive send", arms[0].loop, str(e))
+                continue
+            evp = evp or w
+            d1, v1 = _u(w.value("d", "k"), cfg), _u(w.value("v", "k"), cfg)
+            ok = _eq(d1, b[0]) and _eq(v1, b[1])
+            ctx.check(ok, f"{tag} [{arm_name}]: a positive send stores the batch step of the damping-as-force recurrence",
+                      (w.cell("d", "k") or {}).get("node") or w.loop,
+                      None if ok else {"generator d": repr(d1), "batch d": repr(b[0]), "generator v": repr(v1), "batch v": repr(b[1])})
+            dn = _u(w.final(cache[0]), cfg)
+            ok = _eq(dn, b[2])
+            ctx.check(ok, f"{tag} [{arm_name}]: the damping force cached for the next step equals the batch loop's carried value", w.loop,
+                      None if ok else {"generator": repr(dn), "batch": repr(b[2])})
+        if evp is not None:
+            _rf_and_force(ctx, tag, evp, cfg)
+    # SolveExp2 generator vs tsolve
+    P, Q, invm = F.sym("P"), F.sym("Q"), F.sym("invm")
+    for cfg in se2_configs():
+        tag = f"_solve_se2_generator ({cfg_tag(cfg)})"
+        try:
+            arm = run_arm(ctx, "se2", cfg, "pos", generic_prefix="carry:")
+        except Unsupported as e:
+            ctx.error(f"{tag}: positive send", None, str(e))
+            continue
+        if cfg["k"]:
+            mm = invm if cfg["m"] is not None else F.const(1)
             want = P * mm * F0 + (Q * mm * F1 if cfg["order"] == 1 else 0)
-            tag = f"_solve_se2_generator (order {cfg['order']}, rf {cfg['rf']}, m {'given' if m_given else 'None'})"
-            ok = pqf is not None and not is_unknown(pqf) and pqf.equals(want)
-            ctx.check(ok, f"{tag}: the force integral is P M^-1 f(i-1) {'+ Q M^-1 f(i)' if cfg['order'] == 1 else ''} as in tsolve", lp,
-                      None if ok else {"generator": repr(pqf), "batch": repr(want)})
-            d1, sd = _store_value(ev, ("D", "d"))
-            v1, sv = _store_value(ev, ("V", "v"))
-            okd = d1 is not None and not is_unknown(d1) and d1.equals(F.sym("E_dd") * D0 + F.sym("E_dv") * V0 + want)
-            okv = v1 is not None and not is_unknown(v1) and v1.equals(F.sym("E_vd") * D0 + F.sym("E_vv") * V0 + want)
-            ctx.check(okd and okv, f"{tag}: d(i) = E_dd d + E_dv v + PQF[d half], v(i) = E_vd d + E_vv v + PQF[v half] from column i-1", sd or lp,
-                      None if okd and okv else {"d": repr(d1), "v": repr(v1)})
-        # halves: D <- PQF[ksize:], V <- PQF[:ksize] in both arms
-        txt = utext(lp)
-        okh = ("PQF[ksize:]" in txt and "PQF[:ksize]" in txt)
-        for st in ast.walk(lp):
-            if isinstance(st, (ast.Assign, ast.AugAssign)):
-                t = utext(st)
-                if t.startswith(("D[:,i]", "d[:,i]")) and "PQF" in t:
-                    okh = okh and "PQF[ksize:]" in t and "PQF[:ksize]" not in t
-                if t.startswith(("V[:,i]", "v[:,i]")) and "PQF" in t:
-                    okh = okh and "PQF[:ksize]" in t and "PQF[ksize:]" not in t
-        ctx.check(okh, f"_solve_se2_generator (order {cfg['order']}, rf {cfg['rf']}): displacement takes the d half (rows ksize:) and velocity the v half "
-                       "(rows :ksize) of the [v; d] force integral", lp)
-    ts = ctx.src.func(SE2, "SolveExp2.tsolve")
-    t = utext(ts)
-    ok = "D[:,i+1]=E_dd@d0+E_dv@v0+PQF[ksize:,i]" in t and "V[:,i+1]=E_vd@d0+E_vv@v0+PQF[:ksize,i]" in t \
-        and "PQF=self.P@imf[:,:-1]+self.Q@imf[:,1:]" in t and "PQF=self.P@imf[:,:-1]" in t
-    ctx.check(ok, "SolveExp2.tsolve: the batch step is d = E_dd d + E_dv v + PQF[d half], v = E_vd d + E_vv v + PQF[v half], PQF = P M^-1 f0 (+ Q M^-1 f1)", ts)
+            d1, v1 = _u(arm.value("d", "k"), cfg), _u(arm.value("v", "k"), cfg)
+            okd = _eq(d1, F.sym("E_dd") * D0 + F.sym("E_dv") * V0 + ROWS_D * want)
+            ctx.check(okd, f"{tag}: d(i) = E_dd d + E_dv v + (P M^-1 f(i-1) {'+ Q M^-1 f(i)' if cfg['order'] == 1 else ''})[d half, rows ksize:] from column i-1",
+                      (arm.cell("d", "k") or {}).get("node") or arm.loop, None if okd else {"d": repr(d1)})
+            okv = _eq(v1, F.sym("E_vd") * D0 + F.sym("E_vv") * V0 + ROWS_V * want)
+            ctx.check(okv, f"{tag}: v(i) = E_vd d + E_vv v + (force integral)[v half, rows :ksize] from column i-1",
+                      (arm.cell("v", "k") or {}).get("node") or arm.loop, None if okv else {"v": repr(v1)})
+        _rf_and_force(ctx, tag, arm, cfg)
+    for order in (1, 0):
+        for mass in (None, "unc", "coupled"):
+            try:
+                d1, v1, loop = _batch_se2(ctx, order, mass)
+            except Unsupported as e:
+                ctx.error(f"SolveExp2.tsolve (order {order}, m {mass or 'None'}): batch step", None, str(e))
+                continue
+            mm = invm if mass is not None else F.const(1)
+            want = P * mm * F0 + (Q * mm * F1 if order == 1 else 0)
+            ok = _eq(d1, F.sym("E_dd") * D0 + F.sym("E_dv") * V0 + ROWS_D * want) and _eq(v1, F.sym("E_vd") * D0 + F.sym("E_vv") * V0 + ROWS_V * want)
+            ctx.check(ok, f"SolveExp2.tsolve (order {order}, m {mass or 'None'}): the batch step is d = E_dd d + E_dv v + PQF[d half], "
+                          "v = E_vd d + E_vv v + PQF[v half], PQF = P M^-1 f0 (+ Q M^-1 f1)", loop, None if ok else {"d": repr(d1), "v": repr(v1)})
 
 
-# ---------------------------------------------------------------------------
-# complex-eigenvalue path: batch loop of _solve_complex_unc versus the generator, per configuration
-import copy as _copy
-import re as _re
+# ---------------------------------------------------------------------------------------------------------------- add-on == f1-linear part
+def _inc(cell):
+    if cell is None or not _good(cell["value"]) or not _good(cell["cur"]):
+        return None
+    return cell["value"] - cell["cur"]
 
+
+def _pos_for_addon(ctx, kind, cfg):
+    """the positive-send arm the add-on is compared with (for the damping-as-force generator: the world in which the cache is valid)"""
+    if kind == "cdf" and cfg["k"]:
+        index, tags, cache, roles, arms = _find_state(ctx, kind, cfg)
+        if len(tags) == 1 and len(cache) == 1:
+            w = _worlds(tags[0], cache[0])[0]
+            return run_arm(ctx, kind, cfg, "pos", carry=w[1], generic=w[2]), cache[0]
+        return arms[0], None
+    return run_arm(ctx, kind, cfg, "pos", generic_prefix="carry:"), None
+
+
+def r3_addon_linear_part(ctx):
+    """an add-on send adds exactly the f1-linear part of the positive-send update and touches nothing else"""
+    for kind, configs in (("real", u_configs()), ("cdf", u_configs()), ("se2", se2_configs())):
+        short = GENS[kind][1].split(".")[1]
+        for cfg in configs:
+            tag = f"{short} ({cfg_tag(cfg)})"
+            try:
+                pos, cache = _pos_for_addon(ctx, kind, cfg)
+                add = run_arm(ctx, kind, cfg, "addon", generic_prefix="carry:")
+            except Unsupported as e:
+                ctx.error(f"{tag}: add-on send", None, str(e))
+                continue
+            lp = add.loop
+            if cfg["k"]:
+                for arr, label in (("d", "displacement"), ("v", "velocity")):
+                    cell = add.cell(arr, "k")
+                    if cfg["order"] == 0:
+                        ctx.check(cell is None, f"{tag}: with zero-order hold an add-on force leaves the current {label} untouched (it acts from the next step on)",
+                                  cell["node"] if cell else lp, None if cell is None else repr(cell["value"]))
+                        continue
+                    pv = _u(pos.value(arr, "k"), cfg)
+                    if cell is None or not _good(pv):
+                        ctx.fail(f"{tag}: add-on updates the current {label}", lp, sorted({c["text"] for c in add.cells}))
+                        continue
+                    inc = _u(_inc(cell), cfg)
+                    if inc is None:
+                        ctx.error(f"{tag}: add-on {label}", cell["node"], repr(cell["value"]))
+                        continue
+                    lin = pv.diff("f1") * F1
+                    ok = inc.equals(lin)
+                    ctx.check(ok, f"{tag}: the add-on {label} increment is the f1-linear part of the positive-send update", cell["node"],
+                              None if ok else {"increment": repr(inc), "d(update)/d f1 * F1": repr(lin)})
+            c = _force_cell(add)
+            inc = _inc(c)
+            ok = inc is not None and inc.equals(F1ALL)
+            ctx.check(ok, f"{tag}: an add-on accumulates into the stored force of step i", c["node"] if c else lp,
+                      None if ok else (repr(c["value"]) if c else "no store into the force history"))
+            if cfg.get("rf"):
+                c = add.cell("d", "rf")
+                inc = _inc(c)
+                ok = inc is not None and inc.equals(IKRF * F1RF)
+                ctx.check(ok, f"{tag}: the add-on rf displacement increment is K_rf^-1 F1[rf]", c["node"] if c else lp,
+                          None if ok else (repr(c["value"]) if c else "no store"))
+            allowed = {("d", "k"), ("v", "k"), ("d", "rf"), ("force", "all"), ("force", "k"), ("force", "rf")}
+            other = [c["text"] for c in add.cells if (c["key"][0], c["key"][1]) not in allowed or c["key"][2] != "cur"]
+            ctx.check(not other, f"{tag}: an add-on touches nothing else", lp, other, nontrivial=False)
+            ivs = sorted(add.canon.index_vars)
+            ctx.check(len(ivs) == 1, f"{tag}: every add-on store addresses the column of the step solved last", lp, ivs, nontrivial=False)
+            if cache is not None and cfg["order"] == 1:
+                dn_pos, dn_add = _u(pos.final(cache), cfg), _u(add.final(cache), cfg)
+                ok = _good(dn_pos) and _good(dn_add) and (dn_add - F.sym("carry:" + cache)).equals(dn_pos.diff("f1") * F1)
+                ctx.check(ok, f"{tag}: the cached damping force receives the f1-linear part as well", lp,
+                          None if ok else {"add-on": repr(dn_add), "positive": repr(dn_pos)})
+
+
+# ---------------------------------------------------------------------------------------------------------------- complex-eigenvalue path
 FRB, FK = F.sym("frb"), F.sym("fk")
 
 
@@ -565,59 +890,8 @@ def _batch_complex(ctx, cfg):
     return out, fn0
 
 
-def _gen_complex(ctx, cfg, which):
-    fn0 = ctx.src.func(UNC, "SolveUnc._solve_complex_unc_generator")
-    fn = _ReIm().visit(_copy.deepcopy(fn0))
-    loops = [n for n in ast.walk(fn) if isinstance(n, ast.While) and ast.unparse(n.test) == "True"]
-    if len(loops) != 1:
-        raise AnchorError("_solve_complex_unc_generator: one `while True` loop expected")
-    lp = loops[0]
-    cond0 = _cx_cond(cfg)
-
-    def cond(test, ev):
-        t = utext(test)
-        if t == "j<0":
-            return which == "addon"
-        return cond0(test, ev)
-
-    def sub(node, ev):
-        t = utext(node)
-        table = {"F0[rb]": F0RB, "F1[rb]": F1RB, "F0[kdof]": F0, "F1[kdof]": F1, "F1[rf]": F1RF, "Force[:,i-1]": F.sym("Force0"),
-                 "drb[:,i-1]": F.sym("drb0"), "vrb[:,i-1]": F.sym("vrb0"), "V[:,i-1]": V0, "D[:,i-1]": D0, "d[rb]": F.sym("drb"), "v[rb]": F.sym("vrb"),
-                 "a[rb]": F.sym("arb"), "d[kdof]": F.sym("D"), "v[kdof]": F.sym("V"), "d[rf]": F.sym("drf")}
-        return table.get(t, NotImplemented)
-
-    env = _cx_env()
-    env.update({"self.order": F.const(cfg["order"]), "self.unc": F.sym("unc"), "self.rbsize": F.sym("rbsize"), "self.ksize": F.sym("ksize"),
-                "self.rfsize": F.sym("rfsize"), "self.systype": F.sym("systype"), "self._force": F.sym("Force"), "self.rb": F.sym("rb"),
-                "self.kdof": F.sym("kdof"), "self.rf": F.sym("rf")})
-    ev = Evaluator(env=env, cond=cond, src=ctx.src, subscript=sub, call=_cx_call, store_accept=lambda n, i, node: True)
-
-    def run(stmts):
-        for st in stmts:
-            if st is lp:
-                body = [x for x in lp.body if not (isinstance(x, ast.Assign) and "yield" in ast.unparse(x.value))]
-                ev.env["F1"] = F.sym("F1all")
-                ev.env["j"] = F.sym("j")
-                ev.stores.clear()
-                run(body)
-                return True
-            if isinstance(st, ast.If):
-                c = cond(st.test, ev)
-                if c is None:
-                    raise Unsupported(f"_solve_complex_unc_generator: undecided test `{ast.unparse(st.test)}`")
-                if run(st.body if c else st.orelse):
-                    return True
-            elif isinstance(st, ast.Expr):
-                continue
-            else:
-                ev.stmt(st)
-        return False
-    run(fn.body)
-    out = {}
-    for b, idx, val, st in ev.stores:
-        out[(b, idx.replace(" ", "").strip("()"))] = val
-    return out, lp, fn0
+def _old_cfg(cfg):
+    return {"order": cfg["order"], "m": cfg["m"], "real": cfg["real"], "rb": True}
 
 
 def r2c_complex_path(ctx):
@@ -625,415 +899,684 @@ def r2c_complex_path(ctx):
     send of the generator stores, for the rigid-body, elastic and residual-flexibility partitions, exactly the batch step computed from
     column i-1; in every configuration order x mass (None / diagonal / full) x system type (real / complex)."""
     nconf = 0
-    for order in (1, 0):
-        for mass in (None, "unc", "coupled"):
-            for real in (True, False):
-                cfg = {"order": order, "m": mass, "real": real, "rb": True}
-                tag = f"order {order}, m {mass or 'None'}, {'real' if real else 'complex'} system"
-                try:
-                    b, bfn = _batch_complex(ctx, cfg)
-                    g, lp, gfn = _gen_complex(ctx, cfg, "pos")
-                except Unsupported as e:
-                    ctx.error(f"complex path ({tag}): could not evaluate", None, str(e))
-                    continue
-                nconf += 1
-                pairs = [("rigid-body displacement", ("drb", ":,i+1"), ("drb", ":,i")), ("rigid-body velocity", ("vrb", ":,i+1"), ("vrb", ":,i")),
-                         ("elastic displacement", ("d", "kdof,1:"), ("D", ":,i")), ("elastic velocity", ("v", "kdof,1:"), ("V", ":,i"))]
-                for what, bk, gk in pairs:
-                    bv, gv = b.get(bk), g.get(gk)
-                    if bv is None or gv is None or is_unknown(bv) or is_unknown(gv):
-                        ctx.error(f"complex path ({tag}): {what} not lowered", bfn, {"batch": repr(bv), "generator": repr(gv)})
-                        continue
-                    # batch value is expressed on (drb0, vrb0, y-step); bring the elastic one to the same starting point
-                    bv = bv.subs({"di": F.sym("y0")})
-                    ok = gv.equals(bv)
-                    ctx.check(ok, f"_solve_complex_unc_generator ({tag}): a positive send stores the batch {what} step computed from column i-1", lp,
-                              None if ok else {"generator": repr(gv), "batch": repr(bv)})
-                # acceleration of the rigid-body modes and the rf displacement
-                gv = g.get(("arb", ":,i"))
-                bv = b.get(("a", "rb"))
-                ok = gv is not None and bv is not None and not is_unknown(gv) and not is_unknown(bv) and gv.equals(need(bv).subs({"frb": F1RB}))
-                ctx.check(ok, f"_solve_complex_unc_generator ({tag}): rigid-body acceleration of step i is M_rb^-1 F1[rb] as in the batch solver", lp,
-                          None if ok else {"generator": repr(gv), "batch": repr(bv)})
-                gv = g.get(("drf", ":,i"))
-                ok = gv is not None and not is_unknown(gv) and gv.equals(IKRF * F1RF)
-                ctx.check(ok, f"_solve_complex_unc_generator ({tag}): residual-flexibility displacement of step i is K_rf^-1 F1[rf]", lp,
-                          None if ok else repr(gv))
-                if order == 0:
-                    cfg1 = dict(cfg, order=1)
-                    b1, _ = _batch_complex(ctx, cfg1)
-                    for nm, hold in (("__AF", {"f1rb": F0RB}), ("__AFp", {"f1rb": F0RB}), ("__ABF", {"f1": F0})):
-                        v0_, v1_ = b.get(nm), b1.get(nm)
-                        ok = v0_ is not None and v1_ is not None and not is_unknown(v0_) and not is_unknown(v1_) and need(v1_).subs(hold).equals(v0_)
-                        ctx.check(ok, f"_solve_complex_unc ({tag}): the zero-order-hold {nm[2:]} is the first-order one with the force held (f1 := f0)", bfn,
-                                  None if ok else {"order 0": repr(v0_), "order 1 with f1:=f0": repr(need(v1_).subs(hold)) if v1_ is not None and not is_unknown(v1_) else None})
+    for cfg in cx_configs():
+        order = cfg["order"]
+        tag = f"order {order}, m {cfg['m'] or 'None'}, {'real' if cfg['real'] else 'complex'} system"
+        try:
+            b, bfn = _batch_complex(ctx, _old_cfg(cfg))
+            g = run_arm(ctx, "complex", cfg, "pos", generic_prefix="carry:")
+        except Unsupported as e:
+            ctx.error(f"complex path ({tag}): could not evaluate", None, str(e))
+            continue
+        lp = g.loop
+        nconf += 1
+        pairs = [("rigid-body displacement", ("drb", ":,i+1"), ("d", "rb")), ("rigid-body velocity", ("vrb", ":,i+1"), ("v", "rb")),
+                 ("elastic displacement", ("d", "kdof,1:"), ("d", "k")), ("elastic velocity", ("v", "kdof,1:"), ("v", "k"))]
+        for what, bk, gk in pairs:
+            bv, gv = b.get(bk), g.value(*gk)
+            if not _good(bv) or not _good(gv):
+                ctx.error(f"complex path ({tag}): {what} not lowered", bfn, {"batch": repr(bv), "generator": repr(gv)})
+                continue
+            # batch value is expressed on (drb0, vrb0, y-step); bring the elastic one to the same starting point
+            bv = bv.subs({"di": F.sym("y0")})
+            ok = gv.equals(bv)
+            ctx.check(ok, f"_solve_complex_unc_generator ({tag}): a positive send stores the batch {what} step computed from column i-1", lp,
+                      None if ok else {"generator": repr(gv), "batch": repr(bv)})
+        # acceleration of the rigid-body modes and the rf displacement
+        gv = g.value("a", "rb")
+        bv = b.get(("a", "rb"))
+        ok = _good(gv) and _good(bv) and gv.equals(bv.subs({"frb": F1RB}))
+        ctx.check(ok, f"_solve_complex_unc_generator ({tag}): rigid-body acceleration of step i is M_rb^-1 F1[rb] as in the batch solver", lp,
+                  None if ok else {"generator": repr(gv), "batch": repr(bv)})
+        gv = g.value("d", "rf")
+        ok = _eq(gv, IKRF * F1RF)
+        ctx.check(ok, f"_solve_complex_unc_generator ({tag}): residual-flexibility displacement of step i is K_rf^-1 F1[rf]", lp,
+                  None if ok else repr(gv))
+        c = _force_cell(g)
+        ok = c is not None and _eq(c["value"], F1ALL)
+        ctx.check(ok, f"_solve_complex_unc_generator ({tag}): a positive send replaces the stored force of step i by the sent force", lp,
+                  None if ok else (repr(c["value"]) if c else None), nontrivial=False)
+        if order == 0:
+            cfg1 = dict(_old_cfg(cfg), order=1)
+            b1, _ = _batch_complex(ctx, cfg1)
+            for nm, hold in (("__AF", {"f1rb": F0RB}), ("__AFp", {"f1rb": F0RB}), ("__ABF", {"f1": F0})):
+                v0_, v1_ = b.get(nm), b1.get(nm)
+                ok = _good(v0_) and _good(v1_) and v1_.subs(hold).equals(v0_)
+                ctx.check(ok, f"_solve_complex_unc ({tag}): the zero-order-hold {nm[2:]} is the first-order one with the force held (f1 := f0)", bfn,
+                          None if ok else {"order 0": repr(v0_), "order 1 with f1:=f0": repr(v1_.subs(hold)) if _good(v1_) else None})
     ctx.check(nconf == 12, f"complex path evaluated in {nconf} of 12 configurations", None, nontrivial=False)
+
+
+class F2xCanon:
+    """reference hook of a get_f2x body: columns of the mode-shape argument by partition"""
+
+    def __init__(self, phi):
+        self.phi = phi
+
+    def __call__(self, ev, root, rows, col):
+        if symname(root) == self.phi and is_all(rows):
+            nm = {"self.kdof": "phik", "self.rb": "phir", "self.rf": "phirf"}.get(symname(col))
+            if nm:
+                return F.sym(nm)
+        return None
+
+
+def eval_f2x(ctx, rel, qual, cfg, velo, kind, sided=False):
+    """value returned by a get_f2x function in the configuration (helpers followed)"""
+    fn = ctx.src.func(rel, qual)
+    names = [a.arg for a in fn.args.args]
+    env, facts = cfg_env(cfg, None, extra_truths=[(F.sym(names[2]), velo)])
+    ev = GenEval(ctx, fn, env=env, facts=facts, inline=_inline(ctx, kind), refhook=F2xCanon(names[1]), sided=sided, strict=True)
+    ev.run(fn.body)
+    if not ev.returns:
+        raise Unsupported(f"{qual}: no return reached in configuration {cfg}")
+    return ev.returns[-1][0], fn
 
 
 def r3c_complex_addon(ctx):
     """complex-eigenvalue generator: an add-on send (j < 0) adds to step i exactly the part of the positive-send update that is linear in the
     sent force (and nothing for a zero-order hold); _get_f2x_complex_unc uses the same coefficients (Be through the eigenvector recovery for
     the elastic modes, A/2 and Ap for the rigid-body modes)."""
-    zero = {"f0rb": 0, "drb0": 0, "vrb0": 0, "d0": 0, "v0": 0, "f0": 0}
-    for order in (1, 0):
-        for mass in (None, "unc", "coupled"):
-            for real in (True, False):
-                cfg = {"order": order, "m": mass, "real": real, "rb": True}
-                tag = f"order {order}, m {mass or 'None'}, {'real' if real else 'complex'} system"
-                try:
-                    pos, lp, fn = _gen_complex(ctx, cfg, "pos")
-                    add, _, _ = _gen_complex(ctx, cfg, "addon")
-                except Unsupported as e:
-                    ctx.error(f"complex generator add-on ({tag}): could not evaluate", None, str(e))
-                    continue
-                for nm, what in (("drb", "rigid-body displacement"), ("vrb", "rigid-body velocity"), ("D", "elastic displacement"), ("V", "elastic velocity")):
-                    a = add.get((nm, ":,i"))
-                    if order == 0:
-                        ctx.check(a is None, f"_solve_complex_unc_generator ({tag}): an add-on send leaves the {what} of step i alone (zero-order hold: "
-                                             "the step does not depend on its end force)", lp, None if a is None else repr(a))
-                        continue
-                    p_ = pos.get((nm, ":,i"))
-                    if a is None or p_ is None or is_unknown(a) or is_unknown(p_):
-                        ctx.error(f"complex generator add-on ({tag}): {what} not lowered", lp, {"addon": repr(a), "pos": repr(p_)})
-                        continue
-                    inc = need(a) - F.sym(nm)
-                    want = need(p_).subs({k: F.const(v) for k, v in zero.items()})
-                    ok = inc.equals(want)
-                    ctx.check(ok, f"_solve_complex_unc_generator ({tag}): an add-on send adds exactly the f1-linear part of the {what} update", lp,
-                              None if ok else {"add-on increment": repr(inc), "d(update)/d f1 * F1": repr(want)})
-                a = add.get(("arb", ":,i"))
-                p_ = pos.get(("arb", ":,i"))
-                ok = a is not None and p_ is not None and not is_unknown(a) and (need(a) - F.sym("arb")).equals(need(p_))
-                ctx.check(ok, f"_solve_complex_unc_generator ({tag}): an add-on send adds M_rb^-1 F1[rb] to the rigid-body acceleration", lp,
-                          None if ok else repr(a))
-                a = add.get(("drf", ":,i"))
-                ok = a is not None and not is_unknown(a) and (need(a) - F.sym("drf")).equals(IKRF * F1RF)
-                ctx.check(ok, f"_solve_complex_unc_generator ({tag}): an add-on send adds K_rf^-1 F1[rf] to the residual-flexibility displacement", lp,
-                          None if ok else repr(a))
-                a = add.get(("Force", ":,i"))
-                ok = a is not None and not is_unknown(a) and (need(a) - F.sym("Force")).equals(F.sym("F1all"))
-                ctx.check(ok, f"_solve_complex_unc_generator ({tag}): an add-on send accumulates into the stored force of step i", lp, None if ok else repr(a))
+    zero = {k: F.const(0) for k in ("f0rb", "drb0", "vrb0", "d0", "v0", "f0")}
+    for cfg in cx_configs():
+        order = cfg["order"]
+        tag = f"order {order}, m {cfg['m'] or 'None'}, {'real' if cfg['real'] else 'complex'} system"
+        try:
+            pos = run_arm(ctx, "complex", cfg, "pos", generic_prefix="carry:")
+            add = run_arm(ctx, "complex", cfg, "addon", generic_prefix="carry:")
+        except Unsupported as e:
+            ctx.error(f"complex generator add-on ({tag}): could not evaluate", None, str(e))
+            continue
+        lp = add.loop
+        for key, what in ((("d", "rb"), "rigid-body displacement"), (("v", "rb"), "rigid-body velocity"), (("d", "k"), "elastic displacement"),
+                          (("v", "k"), "elastic velocity")):
+            a = add.cell(*key)
+            if order == 0:
+                ctx.check(a is None, f"_solve_complex_unc_generator ({tag}): an add-on send leaves the {what} of step i alone (zero-order hold: "
+                                     "the step does not depend on its end force)", lp, None if a is None else repr(a["value"]))
+                continue
+            p_ = pos.value(*key)
+            inc = _inc(a)
+            if inc is None or not _good(p_):
+                ctx.error(f"complex generator add-on ({tag}): {what} not lowered", lp, {"addon": repr(a["value"]) if a else None, "pos": repr(p_)})
+                continue
+            want = p_.subs(zero)
+            ok = inc.equals(want)
+            ctx.check(ok, f"_solve_complex_unc_generator ({tag}): an add-on send adds exactly the f1-linear part of the {what} update", lp,
+                      None if ok else {"add-on increment": repr(inc), "d(update)/d f1 * F1": repr(want)})
+        inc, p_ = _inc(add.cell("a", "rb")), pos.value("a", "rb")
+        ok = inc is not None and _good(p_) and inc.equals(p_)
+        ctx.check(ok, f"_solve_complex_unc_generator ({tag}): an add-on send adds M_rb^-1 F1[rb] to the rigid-body acceleration", lp,
+                  None if ok else repr(inc))
+        inc = _inc(add.cell("d", "rf"))
+        ok = inc is not None and inc.equals(IKRF * F1RF)
+        ctx.check(ok, f"_solve_complex_unc_generator ({tag}): an add-on send adds K_rf^-1 F1[rf] to the residual-flexibility displacement", lp,
+                  None if ok else repr(inc))
+        inc = _inc(_force_cell(add))
+        ok = inc is not None and inc.equals(F1ALL)
+        ctx.check(ok, f"_solve_complex_unc_generator ({tag}): an add-on send accumulates into the stored force of step i", lp, None if ok else repr(inc))
     # get_f2x, complex path
-    fn0 = ctx.src.func(UNC, "SolveUnc._get_f2x_complex_unc")
-    fn = _ReIm().visit(_copy.deepcopy(fn0))
     for mass in (None, "unc", "coupled"):
         for velo in (True, False):
-            cfg = {"order": 1, "m": mass, "real": True, "rb": True}
-            c0 = _cx_cond(cfg)
-
-            def cond(test, ev, velo=velo):
-                if isinstance(test, ast.UnaryOp) and isinstance(test.op, ast.Not):
-                    r = cond(test.operand, ev)
-                    return None if r is None else not r
-                t = utext(test)
-                if t == "velo":
-                    return velo
-                return c0(test, ev)
-
-            def sub(node, ev):
-                t = utext(node)
-                return {"phi[:,kdof]": F.sym("phik"), "phi[:,rb]": F.sym("phir")}.get(t, NotImplemented)
-
-            def call(node, ev):
-                d = dotted(node.func) or ""
-                if d == "self._add_rf_flex":
-                    return ev.ev(node.args[0])
-                return _cx_call(node, ev)
-
-            env = _cx_env()
-            env["flex_rf"] = F.const(0)
-            ev = Evaluator(env=env, cond=cond, src=ctx.src, subscript=sub, call=call)
-            ev.run(fn.body)
+            cfg = {"order": 1, "m": mass, "real": True, "rb": True, "k": True, "rf": False, "unc": mass != "coupled"}
             tag = f"m {mass or 'None'}, {'velocity' if velo else 'displacement'}"
-            if not ev.returns or is_unknown(ev.returns[-1][0]):
-                ctx.error(f"_get_f2x_complex_unc ({tag}): not lowered", fn0, repr(ev.returns[-1][0]) if ev.returns else None)
-                continue
-            got = need(ev.returns[-1][0])
             try:
-                pos, lp, _ = _gen_complex(ctx, cfg, "pos")
+                got, fn0 = eval_f2x(ctx, UNC, "SolveUnc._get_f2x_complex_unc", cfg, velo, "complex")
+                pos = run_arm(ctx, "complex", dict(cfg, rf=True), "pos", generic_prefix="carry:")
             except Unsupported as e:
-                ctx.error(f"_get_f2x_complex_unc ({tag}): generator not lowered", fn0, str(e))
+                ctx.error(f"_get_f2x_complex_unc ({tag}): not lowered", None, str(e))
+                continue
+            el, rb = pos.value("v" if velo else "d", "k"), pos.value("v" if velo else "d", "rb")
+            if not _good(got) or not _good(el) or not _good(rb):
+                ctx.error(f"_get_f2x_complex_unc ({tag}): not lowered", fn0, repr(got))
                 continue
             # unit add-on force through phi^T: f1 -> phik^T, f1rb -> phir^T; response recovered with phik / phir
-            zero = {"f0rb": F.const(0), "drb0": F.const(0), "vrb0": F.const(0), "d0": F.const(0), "v0": F.const(0), "f0": F.const(0)}
-            el = need(pos[("V" if velo else "D", ":,i")]).subs(zero).subs({"f1": F.sym("phik")})
-            rb = need(pos[("vrb" if velo else "drb", ":,i")]).subs(zero).subs({"f1rb": F.sym("phir")})
+            el = el.subs(zero).subs({"f1": F.sym("phik")})
+            rb = rb.subs(zero).subs({"f1rb": F.sym("phir")})
             want = F.sym("phik") * el + F.sym("phir") * rb
             ok = got.equals(want)
             ctx.check(ok, f"_get_f2x_complex_unc ({tag}): flexibility = phi_k (d update/d f1) phi_k^T + phi_rb (d update/d f1) phi_rb^T of the "
                           "complex generator's first-order step", fn0, None if ok else {"got": repr(got), "want": repr(want)})
 
 
-def eval_generator_arm_with(ctx, fn, lp, cfg, which, pre, extra_cond):
-    """like eval_generator_arm but with extra decided conditions (by normalised text)"""
-    ev = eval_generator_arm.__wrapped__(ctx, fn, lp, cfg, which, pre, extra_cond) if hasattr(eval_generator_arm, "__wrapped__") else None
-    return _eval_arm(ctx, fn, lp, cfg, which, pre, extra_cond)
-
-
-def _eval_arm(ctx, fn, lp, cfg, which, pre, extra_cond):
-    cfg = dict(cfg)
-    cfg["_extra"] = extra_cond
-    base = eval_generator_arm
-
-    # re-implement with the extra oracle layered on top
-    path_ifs = {}
-    for a in ancestors(lp):
-        if isinstance(a, ast.If):
-            path_ifs[id(a)] = any(lp is y for x in a.body for y in ast.walk(x))
-    ev0 = base(ctx, fn, lp, cfg, which, None)  # for its cond closure
-    cond0 = ev0.cond
-
-    def cond(test, ev):
-        t = utext(test)
-        if t in extra_cond:
-            return extra_cond[t]
-        return cond0(test, ev)
-
-    ev = Evaluator(env=_mk_env(), cond=cond, src=ctx.src, subscript=_subscript_hook, call=_call_hook)
-
-    def run(stmts):
-        for st in stmts:
-            if ev.done:
-                return
-            if st is lp:
-                if pre:
-                    ev.env.update(pre)
-                body = [s for s in lp.body if not (isinstance(s, ast.Assign) and "yield" in ast.unparse(s.value))]
-                ev.env["j"] = F.sym("j")
-                ev.run(body)
-                ev.done = True
-                return
-            if isinstance(st, ast.If):
-                c = cond(st.test, ev)
-                if id(st) in path_ifs:
-                    run(st.body if path_ifs[id(st)] else st.orelse)
-                elif c is True:
-                    run(st.body)
-                elif c is False:
-                    run(st.orelse)
-                else:
-                    ev.stmt(st)
-            elif isinstance(st, ast.While):
-                continue
-            elif isinstance(st, ast.Expr) and isinstance(st.value, (ast.Yield, ast.Constant)):
-                continue
-            else:
-                ev.stmt(st)
-
-    run(fn.body)
-    return ev
-
-
-def _rf_and_force(ctx, tag, ev, lp, cfg):
-    # Force[:, i] = F1
-    fs = [(idx, val, st) for b, idx, val, st in ev.stores if b == "Force"]
-    ok = bool(fs) and fs[-1][0].replace(" ", "") in (":,i", "(:,i)") and not is_unknown(fs[-1][1]) and fs[-1][1].equals(F1) \
-        and isinstance(fs[-1][2], ast.Assign)
-    ctx.check(ok, f"{tag}: a positive send replaces the stored force of step i (`Force[:, i] = F1`)", fs[-1][2] if fs else lp)
-    if cfg.get("rf"):
-        val, st = _store_value(ev, ("drf",))
-        ok = val is not None and not is_unknown(val) and val.equals(IKRF * F1RF)
-        ctx.check(ok, f"{tag}: residual-flexibility displacement of step i is the static solution K_rf^-1 F1[rf]", st or lp, None if ok else repr(val))
-
-
-def r3_addon_linear_part(ctx):
-    """an add-on send adds exactly the f1-linear part of the positive-send update and touches nothing else"""
-    for q, pre in (("SolveUnc._solve_real_unc_generator", None), ("SolveUnc._solve_real_unc_generator_cdforces", {"dmpfrc1": F.sym("dmp_prev")})):
-        fn = ctx.src.func(UNC, q)
-        for lp, doms in _generator_loops(fn):
-            cfg = _loop_config(doms)
-            if not cfg["k"]:
-                continue
-            tag = f"{q.split('.')[1]} (order {cfg['order']}, rf {cfg['rf']})"
-            extra = {"i_last==i-1": False}
-            pos = _eval_arm(ctx, fn, lp, cfg, "pos", {"dmpfrc1": BO * V0} if pre else None, extra)
-            cur0 = {n_: F.sym(n_) for n_ in ("D", "d", "V", "v", "drf", "Force")}
-            add = _eval_arm(ctx, fn, lp, cfg, "addon", dict(cur0, **(pre or {})), extra)
-            dpos, _ = _store_value(pos, ("D", "d"))
-            vpos, _ = _store_value(pos, ("V", "v"))
-            incs = {}
-            for b, idx, val, st in add.stores:
-                if idx.replace(" ", "") in (":,i", "(:,i)"):
-                    incs[b] = (val, st)
-            cur = {"D": F.sym("D"), "d": F.sym("d"), "V": F.sym("V"), "v": F.sym("v"), "drf": F.sym("drf"), "Force": F.sym("Force")}
-            for names, posval, label in ((("D", "d"), dpos, "displacement"), (("V", "v"), vpos, "velocity")):
-                nm = [n for n in names if n in incs]
-                lin = need(posval).diff("f1") * F1 if (posval is not None and not is_unknown(posval)) else None
-                if cfg["order"] == 0:
-                    ok = not nm
-                    ctx.check(ok, f"{tag}: with zero-order hold an add-on force leaves the current {label} untouched (it acts from the next step on)", lp)
-                    continue
-                if not nm or lin is None:
-                    ctx.fail(f"{tag}: add-on updates the current {label}", lp, sorted(incs))
-                    continue
-                val, st = incs[nm[0]]
-                if is_unknown(val):
-                    ctx.error(f"{tag}: add-on {label}", st, repr(val))
-                    continue
-                inc = val - cur[nm[0]]
-                ok = inc.equals(lin)
-                ctx.check(ok, f"{tag}: the add-on {label} increment is the f1-linear part of the positive-send update", st,
-                          None if ok else {"increment": repr(inc), "d(update)/d f1 * F1": repr(lin)})
-            # Force += F1 ; rf
-            if "Force" in incs and not is_unknown(incs["Force"][0]):
-                ok = (incs["Force"][0] - cur["Force"]).equals(F1)
-                ctx.check(ok, f"{tag}: an add-on accumulates into the stored force (`Force[:, i] += F1`)", incs["Force"][1])
-            else:
-                ctx.fail(f"{tag}: an add-on accumulates into the stored force", lp)
-            if cfg.get("rf"):
-                ok = "drf" in incs and not is_unknown(incs["drf"][0]) and (incs["drf"][0] - cur["drf"]).equals(IKRF * F1RF)
-                ctx.check(ok, f"{tag}: the add-on rf displacement increment is K_rf^-1 F1[rf]", incs.get("drf", (None, lp))[1])
-            other = set(incs) - {"D", "d", "V", "v", "drf", "Force"}
-            ctx.check(not other, f"{tag}: an add-on touches nothing else", lp, sorted(other), nontrivial=False)
-            if pre and cfg["order"] == 1:
-                dn_pos = pos.env.get("dmpfrc1")
-                dn_add = add.env.get("dmpfrc1")
-                ok = dn_pos is not None and dn_add is not None and not is_unknown(dn_pos) and not is_unknown(dn_add) and \
-                    (dn_add - F.sym("dmp_prev")).equals(need(dn_pos).diff("f1") * F1)
-                ctx.check(ok, f"{tag}: the cached damping force receives the f1-linear part as well", lp,
-                          None if ok else {"add-on": repr(dn_add), "positive": repr(dn_pos)})
-
-
+# ---------------------------------------------------------------------------------------------------------------- get_f2x
 def r4_get_f2x(ctx):
-    """flexibility returned by get_f2x uses the same coefficient as the add-on increment"""
-    fn = ctx.src.func(UNC, "SolveUnc._get_f2x_real_unc")
-    phik = F.sym("phik")
-    gen = {False: ctx.src.func(UNC, "SolveUnc._solve_real_unc_generator"), True: ctx.src.func(UNC, "SolveUnc._solve_real_unc_generator_cdforces")}
+    """flexibility returned by get_f2x is the change a unit add-on force produces in the current step (same coefficient as the add-on arm)"""
+    phik, phirf = F.sym("phik"), F.sym("phirf")
     for cdf in (False, True):
-        # coefficient of f1 in the positive-send update (order 1, no rf)
-        g = gen[cdf]
-        lp = [x for x in _generator_loops(g) if _loop_config(x[1])["order"] == 1 and _loop_config(x[1])["rf"] is False and _loop_config(x[1])["k"]]
-        if not lp:
-            raise AnchorError("generator loop (order 1, no rf)")
-        lp, doms = lp[0]
-        pos = _eval_arm(ctx, g, lp, _loop_config(doms), "pos", {"dmpfrc1": BO * V0} if cdf else None, {"i_last==i-1": False})
-        dpos, _ = _store_value(pos, ("D", "d"))
-        vpos, _ = _store_value(pos, ("V", "v"))
-        for velo in (False, True):
-            def cond(test, ev, velo=velo, cdf=cdf):
-                t = utext(test)
-                return {"self.ksize": True, "velo": velo, "self.cdforces": cdf}.get(t)
-
-            def call(node, ev):
-                d = dotted(node.func) or ""
-                if d == "np.eye":
-                    return F.const(1)
-                if d == "self._add_rf_flex":
-                    return ev.ev(node.args[0])
-                return NotImplemented
-
-            def sub(node, ev):
-                t = utext(node)
-                if t == "phi[:,kdof]":
-                    return phik
-                return NotImplemented
-
-            ev = Evaluator(env=_mk_env(), cond=cond, src=ctx.src, call=call, subscript=sub)
-            ev.run(fn.body)
-            flex = ev.env.get("flex")
-            upd = vpos if velo else dpos
-            tag = f"_get_f2x_real_unc ({'velocity' if velo else 'displacement'}, {'damping as force' if cdf else 'diagonal damping'})"
-            if flex is None or is_unknown(flex) or upd is None or is_unknown(upd):
-                ctx.error(tag, fn, f"{flex} {upd}")
+        for rf in (False, True):
+            cfg = {"order": 1, "rf": rf, "k": True, "cdf": cdf, "m": "unc", "real": True, "unc": True}
+            gcfg = {"order": 1, "rf": rf, "k": True}
+            try:
+                pos, _ = _pos_for_addon(ctx, "cdf" if cdf else "real", gcfg)
+            except Unsupported as e:
+                ctx.error(f"get_f2x ({'damping as force' if cdf else 'diagonal damping'}, rf {rf}): generator step", None, str(e))
                 continue
-            want = phik * need(upd).diff("f1") * phik
-            ok = flex.equals(want)
-            ctx.check(ok, f"{tag}: flexibility = phi_k (d update / d f1) phi_k^T, the change a unit add-on force produces in the current step", fn,
-                      None if ok else {"get_f2x": repr(flex), "from the generator": repr(want)})
-    top = ctx.src.func(UNC, "SolveUnc.get_f2x")
-    t = utext(top)
-    ok = "ifself.order==0:flex=0.0" in t.replace("\n", "")
-    ctx.check(ok, "get_f2x: zero for zero-order hold (an add-on does not change the current step)", top)
-    # SolveExp2.get_f2x halves
-    fn = ctx.src.func(SE2, "SolveExp2.get_f2x")
-    t = utext(fn)
-    ok = "n=self.nonrfsz" in t and "ifvelo:flex=phik@Q[:n]@phik.Telse:flex=phik@Q[n:]@phik.T" in t.replace("\n", "") and "ifself.order==1:" in t
-    ctx.check(ok, "SolveExp2.get_f2x: velocity uses the v half Q[:n], displacement the d half Q[n:] (same halves as the add-on arm), only for order 1", fn)
-    ok = "Q=Q*invm" in t and "Q=la.lu_solve(self.invm,Q.T,trans=1,check_finite=False).T" in t
-    ctx.check(ok, "SolveExp2.get_f2x: Q is post-multiplied by M^-1 exactly as in the generator", fn)
-    rf = ctx.src.func(BASE, "_BaseODE._add_rf_flex")
-    t = utext(rf)
-    ok = "ifnotveloandself.rfsize:" in t and "flexrf=ikrf.ravel()[:,None]*phirf.T" in t and "flex=flex+phirf@flexrf" in t
-    ctx.check(ok, "_add_rf_flex: the rf part contributes phi_rf K_rf^-1 phi_rf^T to displacement only", rf)
+            for velo in (False, True):
+                tag = f"SolveUnc.get_f2x ({'velocity' if velo else 'displacement'}, {'damping as force' if cdf else 'diagonal damping'}, rf {'yes' if rf else 'no'})"
+                try:
+                    flex, fn = eval_f2x(ctx, UNC, "SolveUnc.get_f2x", cfg, velo, "real")
+                except Unsupported as e:
+                    ctx.error(tag, None, str(e))
+                    continue
+                upd = _u(pos.value("v" if velo else "d", "k"), gcfg)
+                if not _good(flex) or not _good(upd):
+                    ctx.error(tag, fn, f"{flex} {upd}")
+                    continue
+                want = phik * upd.diff("f1") * phik
+                if rf and not velo:
+                    want = want + phirf * need(pos.value("d", "rf")).diff("f1rf") * phirf
+                ok = flex.equals(want)
+                ctx.check(ok, f"{tag}: flexibility = phi (d update / d f1) phi^T, the change a unit add-on force produces in the current step "
+                              "(rf part: displacement only)", fn, None if ok else {"get_f2x": repr(flex), "from the generator": repr(want)})
+    for velo in (False, True):
+        try:
+            flex, fn = eval_f2x(ctx, UNC, "SolveUnc.get_f2x", {"order": 0, "rf": True, "k": True, "m": "unc", "real": True, "unc": True}, velo, "real")
+        except Unsupported as e:
+            ctx.error("SolveUnc.get_f2x (order 0)", None, str(e))
+            continue
+        ok = _good(flex) and flex.is_zero()
+        ctx.check(ok, f"SolveUnc.get_f2x ({'velocity' if velo else 'displacement'}): zero for zero-order hold (an add-on does not change the current step)", fn,
+                  None if ok else repr(flex))
+    # SolveExp2: sides of the mass inverse and halves of Q as in the add-on arm of the generator
+    for mass in (None, "unc", "coupled"):
+        for rf in (False, True):
+            gcfg = {"order": 1, "rf": rf, "k": True, "m": mass, "unc": mass != "coupled"}
+            try:
+                add = run_arm(ctx, "se2", gcfg, "addon", generic_prefix="carry:", sided=True)
+            except Unsupported as e:
+                ctx.error(f"SolveExp2.get_f2x (m {mass or 'None'}, rf {rf}): generator add-on", None, str(e))
+                continue
+            for velo in (False, True):
+                tag = f"SolveExp2.get_f2x ({'velocity' if velo else 'displacement'}, m {mass or 'None'}, rf {'yes' if rf else 'no'})"
+                try:
+                    flex, fn = eval_f2x(ctx, SE2, "SolveExp2.get_f2x", dict(gcfg, real=True), velo, "se2", sided=True)
+                except Unsupported as e:
+                    ctx.error(tag, None, str(e))
+                    continue
+                inc = _u(_inc(add.cell("v" if velo else "d", "k")), gcfg)
+                if not _good(flex) or inc is None:
+                    ctx.error(tag, fn, f"{flex} {inc}")
+                    continue
+                want = phik * inc.diff("f1") * F.fn("T", phik)
+                if rf and not velo:
+                    want = want + phirf * need(_inc(add.cell("d", "rf"))).diff("f1rf") * F.fn("T", phirf)
+                ok = flex.equals(want)
+                ctx.check(ok, f"{tag}: flexibility = phi_k (Q M^-1)[{'v half' if velo else 'd half'}] phi_k^T (+ rf part for displacement): the same half of Q "
+                              "and the same side of the mass inverse as the add-on arm of the generator", fn,
+                          None if ok else {"get_f2x": repr(flex), "from the generator": repr(want)})
+    for velo in (False, True):
+        try:
+            flex, fn = eval_f2x(ctx, SE2, "SolveExp2.get_f2x", {"order": 0, "rf": True, "k": True, "m": "unc", "real": True, "unc": True}, velo, "se2", sided=True)
+        except Unsupported as e:
+            ctx.error("SolveExp2.get_f2x (order 0)", None, str(e))
+            continue
+        ok = _good(flex) and flex.is_zero()
+        ctx.check(ok, f"SolveExp2.get_f2x ({'velocity' if velo else 'displacement'}): zero for zero-order hold", fn, None if ok else repr(flex))
+
+
+# ---------------------------------------------------------------------------------------------------------------- typestate
+GEN_STATE = ("self._d", "self._v", "self._a", "self._force")
+
+
+def _item_of(v):
+    """(sequence value, position) of item(seq, k)"""
+    u = sem.unfn(v) if _good(v) else None
+    if u is None or u[0] != "item" or not u[1][1].is_const():
+        return None
+    return u[1][0], int(u[1][1].const_value())
+
+
+def _eval_plain(ctx, rel, qual, cfg, kind, truths=(), fresh=False, inline=None, defaults=()):
+    fn = ctx.src.func(rel, qual)
+    env, facts = cfg_env(cfg, None, extra_truths=truths)
+    a = fn.args
+    for p_, d in zip([x.arg for x in a.args][::-1], (a.defaults or [])[::-1]):
+        if p_ in defaults and isinstance(d, ast.Constant):
+            env[p_] = F.sym(str(d.value)) if isinstance(d.value, bool) or d.value is None else F.const(d.value)
+    ev = GenEval(ctx, fn, env=env, facts=facts, inline=_inline(ctx, kind) if inline is None else inline, fresh_arrays=fresh)
+    ev.run(fn.body)
+    return ev, fn
 
 
 def r5_typestate(ctx):
-    for rel, q in ((UNC, "SolveUnc.generator"), (SE2, "SolveExp2.generator")):
-        fn = ctx.src.func(rel, q)
-        body = fn.body
-        t = [utext(s) for s in body]
-        refuse = [i for i, s in enumerate(body) if isinstance(s, ast.If) and "notself.slices" in ast.unparse(s.test).replace(" ", "")
-                  and any(isinstance(x, ast.Raise) for x in s.body)]
-        alloc = [i for i, x in enumerate(t) if "self._init_dva_part(" in x]
-        pub = [i for i, x in enumerate(t) if x.startswith("self._d,self._v,self._a,self._force=")]
-        nxt = [s.lineno for s in ast.walk(fn) if isinstance(s, ast.Call) and dotted(s.func) == "next"]
-        ok = bool(refuse) and bool(alloc) and bool(pub) and refuse[0] < alloc[0] < pub[0] and all(body[pub[0]].lineno < n for n in nxt) and nxt
-        ctx.check(ok, f"{q}: interleaved partitions are refused before anything is allocated; _d, _v, _a, _force are published before the generator is primed", fn)
-        ok = t[pub[0]] == "self._d,self._v,self._a,self._force=(d,v,a,force)" or t[pub[0]] == "self._d,self._v,self._a,self._force=d,v,a,force" if pub else False
-        ctx.check(ok, f"{q}: the published arrays are the ones the generator updates and the caller receives", fn)
-        rets = [ast.unparse(r.value).replace(" ", "") for r in ast.walk(fn) if isinstance(r, ast.Return)]
-        ok = bool(rets) and all(r == "(generator,d,v)" for r in rets)
-        ctx.check(ok, f"{q}: returns (generator, d, v)", fn)
-    fin = ctx.src.func(BASE, "_BaseODE.finalize")
-    t = [utext(s) for s in fin.body if not (isinstance(s, ast.Expr) and isinstance(s.value, ast.Constant))]
-    ok = t[:4] == ["d,v,a,f=(self._d,self._v,self._a,self._force)", "delself._d,self._v,self._a,self._force", "self._calc_acce_kdof(d,v,a,f)",
-                   "sol=self._solution(d,v,a)"]
-    ctx.check(ok, "finalize: takes the published arrays, forgets them, recovers acceleration from equilibrium with the force finally in effect, builds the solution", fin, t[:4])
+    plans = [
+        (UNC, "SolveUnc.generator", "real", [({"unc": True, "real": True, "cdf": True, "m": "unc"}, "self._solve_real_unc_generator_cdforces", False),
+                                             ({"unc": True, "real": True, "cdf": False, "m": "unc"}, "self._solve_real_unc_generator", False),
+                                             ({"unc": False, "real": True, "cdf": False, "m": "coupled"}, "self._solve_complex_unc_generator", True),
+                                             ({"unc": True, "real": False, "cdf": False, "m": "unc"}, "self._solve_complex_unc_generator", True)]),
+        (SE2, "SolveExp2.generator", "se2", [({"unc": True, "real": True, "m": "unc"}, "self._solve_se2_generator", False)]),
+    ]
+    for rel, q, kind, variants in plans:
+        # interleaved partitions are refused before anything is allocated or shared
+        try:
+            ev, fn = _eval_plain(ctx, rel, q, {"slices": False}, kind)
+            raised = [k for k, e in enumerate(ev.events) if e[0] == "raise"]
+            before = [e for e in ev.events[:raised[0]] if e[0] in ("setattr",) or (e[0] == "call" and e[1].startswith("self."))] if raised else None
+            ok = bool(raised) and not before
+            ctx.check(ok, f"{q}: interleaved partitions are refused before anything is allocated or published", fn,
+                      None if ok else {"raise reached": bool(raised), "effects before": [e[1] for e in before or []]})
+        except Unsupported as e:
+            ctx.error(f"{q}: refusal of interleaved partitions", None, str(e))
+        for cfg, gname, with_a in variants:
+            tag = f"{q} ({'uncoupled' if cfg['unc'] else 'coupled'}, {'real' if cfg['real'] else 'complex'}{', damping as force' if cfg.get('cdf') else ''})"
+            try:
+                ev, fn = _eval_plain(ctx, rel, q, dict(cfg, slices=True), kind)
+            except Unsupported as e:
+                ctx.error(f"{tag}: typestate", None, str(e))
+                continue
+            f0 = F.sym(fn.args.args[2].arg)
+            st = [ev.env.get(a) for a in GEN_STATE]
+            items = [_item_of(v) for v in st]
+            seqv = items[0][0] if items[0] else None
+            sc = sem.split_call(seqv) if seqv is not None else None
+            ok = all(items) and [it[1] for it in items] == [0, 1, 2, 3] and all(it[0].equals(seqv) for it in items) and sc is not None \
+                and sc[0] == "self._init_dva_part"
+            ctx.check(ok, f"{tag}: _d, _v, _a, _force are the four arrays _init_dva_part returns, in that order", fn,
+                      None if ok else {a: repr(v) for a, v in zip(GEN_STATE, st)})
+            if not ok:
+                continue
+            kinds = [(k, e) for k, e in enumerate(ev.events)]
+            last_pub = max((k for k, e in kinds if e[0] == "setattr" and e[1] in GEN_STATE), default=-1)
+            gcalls = [(k, e) for k, e in kinds if e[0] == "call" and e[1].startswith("self._solve_") and e[1].endswith(("_generator", "_generator_cdforces"))]
+            nexts = [k for k, e in kinds if e[0] == "call" and e[1] == "next"]
+            okg = len(gcalls) == 1 and gcalls[0][1][1] == gname
+            if okg:
+                pos = gcalls[0][1][2]
+                want = [st[0], st[1]] + ([st[2]] if with_a else []) + [f0]
+                okg = len(pos) == len(want) and not gcalls[0][1][3] and all(_eq(a, b) for a, b in zip(pos, want))
+            ctx.check(okg, f"{tag}: the generator body for this kind of system receives the published d, v{', a' if with_a else ''} and the initial force", fn,
+                      None if okg else [(e[1], [repr(x) for x in e[2]]) for _, e in gcalls])
+            okn = bool(nexts) and all(k > last_pub for k in nexts) and bool(gcalls) and all(k > gcalls[0][0] for k in nexts)
+            ctx.check(okn, f"{tag}: the arrays are published before the generator is primed", fn, None if okn else {"next": nexts, "last publish": last_pub})
+            r = ev.returns[-1][0] if ev.returns else None
+            okr = isinstance(r, tuple) and len(r) == 3 and _good(r[0]) and (sem.split_call(r[0]) or ("",))[0] == gname and _eq(r[1], st[0]) and _eq(r[2], st[1])
+            ctx.check(okr, f"{tag}: returns (generator, d, v) - the arrays the generator updates are the ones the caller watches", fn,
+                      None if okr else repr(r))
+    # finalize
+    for get_force in (False, True):
+        try:
+            fn = ctx.src.func(BASE, "_BaseODE.finalize")
+            gf = F.sym(fn.args.args[1].arg)
+            ev, fn = _eval_plain(ctx, BASE, "_BaseODE.finalize", {"unc": True, "real": True, "m": "unc"}, "real", truths=[(gf, get_force)])
+        except Unsupported as e:
+            ctx.error("finalize: typestate", None, str(e))
+            continue
+        want = [F.sym(a) for a in GEN_STATE]
+        calc = [e for e in ev.events if e[0] == "call" and e[1] == "self._calc_acce_kdof"]
+        ok = len(calc) == 1 and len(calc[0][2]) == 4 and not calc[0][3] and all(_eq(a, b) for a, b in zip(calc[0][2], want))
+        ctx.check(ok, f"finalize (get_force {get_force}): acceleration is recovered from equilibrium with the published d, v, a and the force finally in effect", fn,
+                  None if ok else [[repr(x) for x in e[2]] for e in calc])
+        dels = {e[1] for e in ev.events if e[0] == "del"}
+        ctx.check(set(GEN_STATE) <= dels, f"finalize (get_force {get_force}): the published arrays are forgotten", fn, sorted(dels), nontrivial=False)
+        r = ev.returns[-1][0] if ev.returns else None
+        sc = sem.split_call(r) if _good(r) else None
+        ok = sc is not None and sc[0].split(".")[-1] == "SimpleNamespace" and all(_eq(sc[2].get(k), w) for k, w in zip("dva", want))
+        ctx.check(ok, f"finalize (get_force {get_force}): the solution holds the published d, v, a", fn, None if ok else repr(r))
+        if get_force:
+            nm = None
+            for k, v in ev.env.items():
+                if k.endswith(".force") and _eq(v, want[3]):
+                    nm = k
+            ctx.check(nm is not None, "finalize: with get_force the force history finally in effect is returned", fn)
     # _force is read only by finalize and the generator functions
     readers = []
+    consts = G.ModConsts(ctx.src)
     for rel in (BASE, UNC, SE2, O.NM, O.FD):
         m = ctx.src.mod(rel)
         for qq, f2 in m.funcs.items():
             for n in walk_no_nested(f2):
                 if isinstance(n, ast.Attribute) and n.attr == "_force" and isinstance(n.ctx, ast.Load):
                     readers.append(qq)
+                if isinstance(n, ast.Call) and dotted(n.func) == "getattr" and len(n.args) >= 2:
+                    a = n.args[1]
+                    names = set()
+                    if isinstance(a, ast.Constant) and isinstance(a.value, str):
+                        names = {a.value}
+                    elif isinstance(a, ast.Name):
+                        # a name bound by a loop / comprehension over a constant tuple
+                        for x in walk_no_nested(f2):
+                            it = None
+                            if isinstance(x, ast.comprehension) and isinstance(x.target, ast.Name) and x.target.id == a.id:
+                                it = x.iter
+                            if isinstance(x, ast.For) and isinstance(x.target, ast.Name) and x.target.id == a.id:
+                                it = x.iter
+                            if isinstance(it, ast.Name):
+                                v = consts.get(rel, it.id)
+                                if isinstance(v, tuple):
+                                    names |= {G.strconst(e) for e in v}
+                                else:
+                                    names.add("?")
+                            elif it is not None:
+                                names.add("?")
+                    if "_force" in names or "?" in names:
+                        readers.append(qq)
     ok = set(readers) <= {"_BaseODE.finalize", "SolveUnc._solve_real_unc_generator", "SolveUnc._solve_real_unc_generator_cdforces",
                           "SolveUnc._solve_complex_unc_generator", "SolveExp2._solve_se2_generator"}
     ctx.check(ok, "the stored force history `_force` is read only by the generator bodies and finalize", BASE + ":1", sorted(set(readers)))
-    part = ctx.src.func(BASE, "_BaseODE._init_dva_part")
-    t = utext(part)
-    ok = "f=np.copy(a)" in t and "f[:,0]=F0" in t and "returnd,v,a,f" in t.replace("(", "").replace(")", "")
-    ctx.check(ok, "_init_dva_part: the force history starts as zeros with column 0 = F0", part)
+    # _init_dva_part
+    inl = G.inline_table(ctx, [(BASE, "_BaseODE")], exclude=("_init_dva_part", "_init_dva", "generator", "tsolve", "fsolve", "finalize"))
+    for unc in (True, False):
+        tag = f"_init_dva_part ({'uncoupled' if unc else 'coupled'})"
+        try:
+            ev, fn = _eval_plain(ctx, BASE, "_BaseODE._init_dva_part", {"unc": unc, "m": "unc" if unc else "coupled", "rf": True, "k": True, "real": True}, "real",
+                                 fresh=True, inline=inl, defaults=("istime",))
+        except Unsupported as e:
+            ctx.error(f"{tag}: initial arrays", None, str(e))
+            continue
+        f0 = F.sym(fn.args.args[2].arg)
+        r = ev.returns[-1][0] if ev.returns else None
+        ok = isinstance(r, tuple) and len(r) == 4 and all(symname(x) in ev.fresh for x in r) and len({symname(x) for x in r}) == 4
+        if ok:
+            kind, src = ev.fresh[symname(r[3])]
+            zero = kind == "zeros" or (kind == "copy" and symname(src) in ev.fresh and ev.fresh[symname(src)][0] == "zeros"
+                                       and not any(c["root"] is not None and _eq(c["root"], src) for c in ev.gcells))
+            cells = [c for c in ev.gcells if c["root"] is not None and _eq(c["root"], r[3])]
+            ok = zero and len(cells) == 1 and is_all(cells[0]["rows"]) and _good(cells[0]["col"]) and cells[0]["col"].is_zero() and _eq(cells[0]["value"], f0)
+        ctx.check(ok, f"{tag}: the force history starts as zeros with column 0 = F0", fn, None if ok else repr(r))
+        if isinstance(r, tuple) and len(r) == 4:
+            cells = [c for c in ev.gcells if c["root"] is not None and _eq(c["root"], r[0]) and symname(c["rows"]) == "self.rf"]
+            ok = len(cells) == 1 and _good(cells[0]["col"]) and cells[0]["col"].is_zero() and \
+                _eq(cells[0]["value"], IKRF * F.fn("ref", f0, F.sym("self.rf"), G.ALLM))
+            ctx.check(ok, f"{tag}: the rf displacement of step 0 is the static solution K_rf^-1 F0[rf] (as in the batch solver)", fn,
+                      None if ok else [repr(c["value"]) for c in cells])
+
+
+# ---------------------------------------------------------------------------------------------------------------- effects on the solver object
+ENTRY = ("tsolve", "generator", "finalize", "get_f2x")
+
+
+def r7_constructor_state_is_read_only(ctx):
+    """no method reachable from tsolve / generator (and the generator bodies) / finalize / get_f2x stores in place into an array the constructor
+    computed: such a store changes every later solution of the same solver object, so the generator no longer reproduces the batch solution"""
+    from .c08_effects import Program
+    files = [BASE, UNC, SE2, CDF]
+    prog = Program(ctx, files)
+    evidence = prog.array_evidence(files)
+    nfun = 0
+    reported = set()
+    for cls in ("SolveUnc", "SolveCDF", "SolveExp2"):
+        if cls not in prog.classes:
+            raise AnchorError(f"class {cls}")
+        protected = prog.ctor_attrs(cls)
+        funcs = prog.reachable(cls, ENTRY)
+        # generator bodies are started by generator(): reachable through self.<name>(...) calls already
+        for fn, c, dc in funcs:
+            writes, _ = prog.analyse(fn, c, dc)
+            bad = []
+            for o, node, how in writes:
+                if o[0] != "attr":
+                    continue
+                comp = o[1].split(".")
+                if len(comp) < 2 or comp[1] not in protected:
+                    continue
+                if how.startswith("augmented assignment") and o[1] not in evidence:
+                    continue          # a number: `n += 1` rebinds
+                bad.append((o[1], node, how))
+            q = f"{dc + '.' if dc else ''}{fn.name}"
+            if (q, cls) in reported:
+                continue
+            reported.add((q, cls))
+            nfun += 1
+            if bad:
+                for path, node, how in bad:
+                    ctx.fail(f"{q} (as reached from {cls}.{'/'.join(ENTRY)}): stores in place into `{path}`, which the constructor computed and every "
+                             "later solution of this solver object reads", node,
+                             {"how": how, "statement": ast.unparse(node)[:120],
+                              "consequence": "the first solution damages the solver; a later generator run (or tsolve) no longer solves the system it was built for"},
+                             key=f"C08-R7|{q}|{path}")
+            else:
+                ctx.ok(f"{q} (as reached from {cls}): no in-place store into an array the constructor computed", fn)
+    ctx.check(nfun >= 20, f"effect rule bound to {nfun} reachable functions", BASE + ":1", nontrivial=False)
+
+
+# ---------------------------------------------------------------------------------------------------------------- partition typing
+from .e3_spaces import Arr, Typer  # noqa: E402
+
+
+class TraceTyper(Typer):
+    """E3 typer run over the statements one configuration actually executes (branches are already resolved by value, helpers are entered with
+    the types of their arguments), so the index-space equivalences of the configuration hold for the whole run"""
+
+    def __init__(self, *a, **k):
+        super().__init__(*a, **k)
+        self.ret_types = {}
+
+    def call(self, node):
+        if id(node) in self.ret_types:
+            return self.ret_types[id(node)]
+        d = dotted(node.func)
+        if d == "np.transpose" and len(node.args) == 1:
+            t = self.ty(node.args[0])
+            return t.T if isinstance(t, Arr) else None
+        if d in ("np.ravel",) and len(node.args) == 1:
+            t = self.ty(node.args[0])
+            return Arr(t.s[0], None, t.r[0], None, one_d=True) if isinstance(t, Arr) else None
+        return super().call(node)
+
+    # orientation of a vector given an inserted axis: v[:, None] is a column (one row per entry of v), v[None, :] a row.  "ONE" is the
+    # inserted axis: it lines up with any space.
+    def _ne(self, a, b):
+        if a == "ONE" or b == "ONE":
+            return False
+        return super()._ne(a, b)
+
+    def _index_elem(self, e):
+        if dotted(e) in ("np.newaxis", "numpy.newaxis"):
+            return "newaxis"
+        return super()._index_elem(e)
+
+    def subscript(self, node):
+        elts = list(node.slice.elts) if isinstance(node.slice, ast.Tuple) else [node.slice]
+        if len(elts) == 2:
+            kinds = [self._index_elem(e) for e in elts]
+            if sorted(map(str, kinds)) == ["newaxis", "slice"]:
+                base = self.ty(node.value)
+                if isinstance(base, Arr):
+                    if kinds[1] == "newaxis":
+                        return Arr(base.s[0], "ONE", base.r[0], None)
+                    return Arr("ONE", base.s[0], None, base.r[0])
+        return super().subscript(node)
+
+    def binop(self, node):
+        a, b = self.ty(node.left), self.ty(node.right)
+        if isinstance(node.op, ast.MatMult):
+            return self.matmul(node, a, b)
+        if isinstance(a, Arr) and isinstance(b, Arr):
+            sa, sb = a.s[0], b.s[0]
+            if b.one_d and not a.one_d and a.s[1] is not None:
+                sa = a.s[1]
+            elif a.one_d and not b.one_d and b.s[1] is not None:
+                sb = b.s[1]
+            if sa is not None and sb is not None:
+                self._res(node)
+                if self._ne(sa, sb):
+                    self.report("elementwise-space", node, f"`{ast.unparse(node)}`: left operand rows in space {sa}, right operand rows in space {sb}")
+            ca, cb = a.s[1], b.s[1]
+            if not a.one_d and not b.one_d and ca is not None and cb is not None and "ONE" in (a.s[0], b.s[0], ca, cb) and self._ne(ca, cb):
+                # an operand with an inserted axis fixes the orientation: the trailing axes must line up as well
+                self._res(node)
+                self.report("elementwise-space", node, f"`{ast.unparse(node)}`: trailing axis of the left operand in space {ca}, of the right operand in space {cb} "
+                                                       "(a vector with an inserted axis scales the wrong axis)")
+            ra, rb = a.r[0], b.r[0]
+            r0 = ra if (isinstance(node.op, (ast.Add, ast.Sub)) and ra == rb) else None
+            s0 = sa if sa not in (None, "ONE") else (sb if sb is not None else sa)
+            c1 = a.s[1] if a.s[1] not in (None, "ONE") else (b.s[1] if b.s[1] is not None else a.s[1])
+            return Arr(s0, c1, r0, None)
+        if isinstance(node.op, (ast.Mult, ast.Div, ast.Pow)):
+            t = a if isinstance(a, Arr) else b
+            if isinstance(t, Arr):
+                return Arr(t.s[0], t.s[1], None, None)
+        if isinstance(a, Arr):
+            return a
+        if isinstance(b, Arr):
+            return b
+        from .e3_spaces import SCALAR
+        if a == SCALAR and b == SCALAR:
+            return SCALAR
+        return None
+
+
+def type_trace(trace, attrs, params, equiv, label, bad, checked):
+    def report(kind, node, detail):
+        bad.setdefault(id(node), []).append((kind, node, detail, label))
+
+    T = TraceTyper(attrs, params, O.SIZE_NAMES, report, label)
+    T.attrs.setdefault("self._force", Arr("N", None))
+    T.equiv = list(equiv)
+    frames = []
+    for ev in trace:
+        if ev[0] == "stmt":
+            st = ev[1]
+            if isinstance(st, ast.Return) and frames:
+                frames[-1]["ret"] = T.ty(st.value) if st.value is not None else None
+            elif isinstance(st, (ast.Assign, ast.AugAssign, ast.AnnAssign, ast.Expr, ast.Return)):
+                T.stmt(st)
+        elif ev[0] == "bind":
+            T.env[ev[1]] = Arr("N", None)
+        elif ev[0] == "enter":
+            node, fn = ev[1], ev[2]
+            names = [a.arg for a in fn.args.posonlyargs + fn.args.args]
+            if names and names[0] in ("self", "cls") and isinstance(node.func, ast.Attribute):
+                names = names[1:]
+            new = {}
+            for p_, a in zip(names, node.args):
+                new[p_] = T.ty(a)
+            for k in node.keywords:
+                if k.arg in names:
+                    new[k.arg] = T.ty(k.value)
+            frames.append({"env": T.env, "node": node, "ret": None})
+            T.env = new
+        elif ev[0] == "exit":
+            fr = frames.pop()
+            T.env = fr["env"]
+            T.ret_types[id(fr["node"])] = fr["ret"]
+    for n in T.checked:
+        checked[id(n)] = n
+
+
+def _equiv(cfg, mode):
+    if mode != "U":
+        return []
+    if cfg.get("k", True) and not cfg.get("rf", True):
+        return [("N", "K")]
+    if cfg.get("rf", True) and not cfg.get("k", True):
+        return [("N", "RF")]
+    return []
 
 
 def r6_typing(ctx):
     U, E, X = O.mode_U(), O.mode_E(), O.exp2_attrs()
-    plan = [
-        (UNC, "SolveUnc._solve_real_unc_generator", U, "mode U", O.COND_U), (UNC, "SolveUnc._solve_real_unc_generator_cdforces", U, "mode U", O.COND_U),
-        (UNC, "SolveUnc._solve_complex_unc_generator", E, "mode E", None), (SE2, "SolveExp2._solve_se2_generator", X, "SolveExp2", None),
-        (UNC, "SolveUnc._get_f2x_real_unc", U, "mode U", O.COND_U), (UNC, "SolveUnc._get_f2x_complex_unc", E, "mode E", None),
-        (SE2, "SolveExp2.get_f2x", X, "SolveExp2", None), (BASE, "_BaseODE._add_rf_flex", U, "mode U", None),
-        (BASE, "_BaseODE._init_dva_part", U, "mode U", None),
-    ]
-    for rel, q, attrs, label, cond in plan:
-        O.type_function(ctx, rel, q, attrs, label, rule="C08-R6", cond=cond)
+    dpar = {1: Arr("N", None, "d"), 2: Arr("N", None, "v")}
+    plan = [("real", U, "mode U", u_configs()), ("cdf", U, "mode U", u_configs()), ("complex", E, "mode E", cx_configs()), ("se2", X, "SolveExp2", se2_configs())]
+    for kind, attrs, label, configs in plan:
+        rel, qual, mode = GENS[kind]
+        fn = ctx.src.func(rel, qual)
+        names = [a.arg for a in fn.args.args]
+        params = {names[1]: dpar[1], names[2]: dpar[2], names[-1]: Arr("N", None)}
+        if mode == "E":
+            params[names[3]] = Arr("N", None, "a")
+        bad, checked = {}, {}
+        for cfg in configs:
+            for which in ("pos", "addon"):
+                try:
+                    arm = run_arm(ctx, kind, cfg, which, generic_prefix="carry:")
+                except Unsupported as e:
+                    ctx.error(f"{qual} [{label}] ({cfg_tag(cfg)}, {which}): not evaluated", fn, str(e))
+                    continue
+                type_trace(arm.ev.trace, attrs, params, _equiv(cfg, mode), label, bad, checked)
+        _report_typing(ctx, qual, label, bad, checked)
+    # the get_f2x family and the allocation of the arrays
+    jobs = []
+    for cdf in (False, True):
+        for rf in (False, True):
+            for velo in (False, True):
+                jobs.append((UNC, "SolveUnc.get_f2x", "real", U, "mode U", {"order": 1, "rf": rf, "k": True, "cdf": cdf, "m": "unc", "real": True, "unc": True}, velo))
+    for mass in (None, "unc", "coupled"):
+        for velo in (False, True):
+            jobs.append((UNC, "SolveUnc._get_f2x_complex_unc", "complex", E, "mode E",
+                         {"order": 1, "m": mass, "real": True, "rb": True, "k": True, "rf": True, "unc": mass != "coupled"}, velo))
+            for rf in (False, True):
+                jobs.append((SE2, "SolveExp2.get_f2x", "se2", X, "SolveExp2", {"order": 1, "rf": rf, "k": True, "m": mass, "unc": mass != "coupled", "real": True}, velo))
+    by = {}
+    for rel, qual, kind, attrs, label, cfg, velo in jobs:
+        fn = ctx.src.func(rel, qual)
+        names = [a.arg for a in fn.args.args]
+        env, facts = cfg_env(cfg, None, extra_truths=[(F.sym(names[2]), velo)])
+        ev = GenEval(ctx, fn, env=env, facts=facts, inline=_inline(ctx, kind), refhook=F2xCanon(names[1]), strict=True)
+        bad, checked = by.setdefault((qual, label), ({}, {}))
+        try:
+            ev.run(fn.body)
+        except Unsupported as e:
+            ctx.error(f"{qual} [{label}] ({cfg_tag(cfg)}): not evaluated", fn, str(e))
+            continue
+        type_trace(ev.trace, attrs, {names[1]: Arr("PHYS", "N")}, _equiv(cfg, "U" if label != "mode E" else "E"), label, bad, checked)
+    for (qual, label), (bad, checked) in by.items():
+        _report_typing(ctx, qual, label, bad, checked)
+    inl = G.inline_table(ctx, [(BASE, "_BaseODE")], exclude=("_init_dva_part", "_init_dva", "generator", "tsolve", "fsolve", "finalize"))
+    bad, checked = {}, {}
+    for unc in (True, False):
+        try:
+            ev, fn = _eval_plain(ctx, BASE, "_BaseODE._init_dva_part", {"unc": unc, "m": "unc" if unc else "coupled", "rf": True, "k": True, "real": True}, "real",
+                                 inline=inl, defaults=("istime",))
+        except Unsupported as e:
+            ctx.error("_BaseODE._init_dva_part [mode U]: not evaluated", None, str(e))
+            continue
+        names = [a.arg for a in fn.args.args]
+        type_trace(ev.trace, U, {names[2]: Arr("N", None), names[3]: Arr("N", None, "d"), names[4]: Arr("N", None, "v"), "d": dpar[1], "v": dpar[2]}, [], "mode U",
+                   bad, checked)
+    _report_typing(ctx, "_BaseODE._init_dva_part", "mode U", bad, checked)
+
+
+def _report_typing(ctx, qual, label, bad, checked):
+    seen = set()
+    for lst in bad.values():
+        for kind, node, detail, lab in lst:
+            key = f"C08-R6|{qual}|{label}|{kind}|{ast.unparse(node)[:90]}"
+            if key in seen:
+                continue
+            seen.add(key)
+            ctx.fail(f"{qual} [{label}]: {kind}", node, detail, key=key)
+    for i, node in checked.items():
+        if i in bad:
+            continue
+        ctx.ok(f"{qual} [{label}]: `{ast.unparse(node)[:70]}` index/operand spaces agree", node)
 
 
 RULES = [
-    ("C08-R1", r1_carried_state, 30),
-    ("C08-R2", r2_step_equals_batch, 40),
-    ("C08-R2c", r2c_complex_path, 80),
-    ("C08-R3", r3_addon_linear_part, 24),
+    ("C08-R1", r1_carried_state, 100),
+    ("C08-R2", r2_step_equals_batch, 110),
+    ("C08-R2c", r2c_complex_path, 90),
+    ("C08-R3", r3_addon_linear_part, 120),
     ("C08-R3c", r3c_complex_addon, 80),
-    ("C08-R4", r4_get_f2x, 8),
-    ("C08-R5", r5_typestate, 9),
-    ("C08-R6", r6_typing, 40),
+    ("C08-R4", r4_get_f2x, 20),
+    ("C08-R5", r5_typestate, 28),
+    ("C08-R6", r6_typing, 120),
+    ("C08-R7", r7_constructor_state_is_read_only, 40),
 ]
 LEVEL = "other"
-EXPLANATION = ("Static: per generator loop (16 loops in 4 generator functions) the state carried from one send to the next is exactly the step index "
-               "(plus the guarded damping-force cache), the positive-send update is the batch step as an exact symbolic identity in (column i-1, "
-               "Force[:, i-1], sent force), an add-on send adds exactly the f1-linear part, get_f2x uses that same coefficient; typestate of "
-               "generator()/finalize(); partition typing of the generator bodies.")
+EXPLANATION = ("Static, decided on values: every generator body is executed symbolically per configuration of the solver object (order, partitions "
+               "present, mass None/diagonal/full, real/complex) and per kind of send; array accesses are references (array, partition, column) "
+               "however the source reaches them. The state carried from one send to the next (found by def-use) is exactly the step index plus, "
+               "for damping-as-force, a cached force whose tag is re-validated by meaning; the positive-send update is the batch step as an exact "
+               "symbolic identity in (column i-1, Force[:, i-1], sent force); an add-on adds exactly the f1-linear part; get_f2x uses that same "
+               "coefficient (same half of Q and same side of the mass inverse for SolveExp2); typestate of generator()/finalize(); partition typing "
+               "of the executed paths; no method reachable from tsolve/generator/finalize/get_f2x stores in place into constructor state.")
 MANIFEST = {
-    "text": "Partial claim decided statically: (R1) loop-carried locals are exactly {i} (+ {dmpfrc1, i_last} for damping-as-force, every use of the cached force "
-            "guarded by i_last == i - 1 with a recompute arm); (R2) positive send == batch step for the uncoupled, damping-as-force and SolveExp2 generators in "
-            "every order/rf branch; (R3) add-on increment == d(update)/d f1 * F1 and touches nothing else; (R4) get_f2x == phi (d update/d f1) phi^T; "
-            "(R5) publish-before-prime / finalize typestate; (R6) index-space typing. By induction over sends these give the batch solution for every "
-            "finite history in the documented domain. (R2c/R3c) the same for the complex-eigenvalue generator against SolveUnc._solve_complex_unc in "
-            "12 configurations (order x mass None/diagonal/full x real/complex system): positive send == batch step on the rb, elastic and rf partitions, "
-            "zero-order arm == first-order arm with the force held, add-on == f1-linear part, _get_f2x_complex_unc == that same coefficient. "
+    "text": "Partial claim decided statically: (R1) the loop-carried state of all 15 generator loops, found by def-use on a symbolic iteration, is exactly the "
+            "step index (+ one cached damping force and its tag for damping-as-force; in every world 'step j-1 / j / j+1 / j-2 / any other step was solved "
+            "last' a force cached for a step other than j-1 never enters step j; the tag is set by every positive send, the cache follows V[:, i] on add-ons); "
+            "(R2) positive send == batch step for the uncoupled, damping-as-force and SolveExp2 generators in every order / rf / rf-only / mass configuration; "
+            "(R3) add-on increment == d(update)/d f1 * F1 and touches nothing else; (R4) get_f2x == phi (d update/d f1) phi^T incl. the rf part, for "
+            "SolveExp2 with the same half of Q and the same side of M^-1 as the add-on arm; (R5) generator() publishes the four arrays of _init_dva_part "
+            "before priming and hands them to the right body, finalize() recovers acceleration from exactly those, _init_dva_part starts the force history "
+            "with F0 and the rf displacement with K_rf^-1 F0[rf]; (R6) index-space typing of the executed paths; (R7) constructor-computed arrays are never "
+            "stored into in place after construction (alias analysis). By induction over sends these give the batch solution for every finite history in "
+            "the documented domain. (R2c/R3c) the same for the complex-eigenvalue generator against SolveUnc._solve_complex_unc in 12 configurations. "
             "Not decided: bit-equality of differently associated sums, add-on before any positive send.",
-    "note": "Trusted: CPython ast; verifier/e2_formula.py with matrix products abstracted to commutative products (detects a wrong coefficient or term, "
-            "not a wrong multiplication order); lemma used: the cached damping force, when its guard holds, equals bo @ V[:, i-1].",
-    "technique": "static liveness (loop-carried state) + symbolic step formulas compared with the batch loop body + differentiation for the add-on part",
+    "note": "Trusted: CPython ast; verifier/e2_formula.py with matrix products abstracted to commutative products (a wrong coefficient or term is seen; a wrong "
+            "multiplication order only where the side is tracked: lu_solve / transposes in SolveExp2.get_f2x versus the generator); lemma used: the cached "
+            "damping force, when its tag says step j-1, equals bo @ V[:, j-1]. The batch loop bodies are lowered with name/shape hooks (batch code only).",
+    "technique": "symbolic execution per configuration + def-use of loop-carried state + symbolic step formulas compared with the batch loop body + "
+                 "differentiation for the add-on part + may-alias effect analysis",
 }
